@@ -8,8 +8,10 @@
    Part 5  the system theorems *)
 From V Require Import Base Base_proofs Validators SystemAll.
 From V Require ProxyCore ProxyCore_proofs ProxyWorld_proofs ProxyAll ProxyAll_proofs Callback Callback_proofs.
-From V Require AuthAll AuthAll_proofs AuthBack AuthBack_proofs AuthFlow AuthFlow_proofs AuthGates Url ReqHeaders Hostmux.
-From Coq Require Import ZifyBool.
+From V Require AuthAll AuthAll_proofs AuthBack AuthBack_proofs AuthFlow AuthFlow_proofs AuthGates Url ReqHeaders Hostmux ReqUri RespHeaders.
+From Coq Require Import ZifyBool ZifyN.
+Require Coq.Strings.String.
+Import Coq.Strings.String.StringSyntax.
 Local Open Scope Z_scope.
 
 Module PP := V.ProxyAll_proofs.
@@ -59,10 +61,13 @@ Qed.
 
 Lemma sigval_tag sd st x sg k m :
   A.sigval_of (a_oracles sd st x) sg = G.SigTag (G.Mac k m) ->
-  exists r, In r (st_m st) /\ k = sd_psecret sd /\ m = mr_uri r ++ G.dec (mr_ts r).
+  exists b r, S.b64_decode sg = Some b /\ find_m st b = Some r /\ In r (st_m st) /\ k = sd_psecret sd /\
+              m = mr_uri r ++ G.dec (mr_ts r).
 Proof.
-  unfold A.sigval_of. destruct sg; [discriminate|]. destruct (S.b64_decode _) as [b|]; [|discriminate].
-  cbn [A.o_tag a_oracles]. intros H. inversion H as [Ht]. apply a_tag_mac in Ht as [r [Hin [_ [Hk Hm]]]]. eauto.
+  unfold A.sigval_of. destruct sg as [|c0 sg]; [discriminate|]. destruct (S.b64_decode (c0 :: sg)) as [b|] eqn:Eb; [|discriminate].
+  cbn [A.o_tag a_oracles]. intros H. inversion H as [Ht]. unfold a_tag in Ht.
+  destruct (find_m st b) as [r|] eqn:Ef; [|discriminate]. inversion Ht; subst.
+  apply find_m_in in Ef as Hin. destruct Hin as [Hin _]. exists b, r. auto.
 Qed.
 
 (* ================================================================================================ *)
@@ -107,9 +112,9 @@ Lemma router_saved_cases opens d u q a now s :
   (P.route_of_path (P.rq_path q) <> P.RtCallback /\
    exists ep, PC.rs_cookie (PC.handle lower now (P.pc_cfg d u) (P.pc_pol u) (P.pc_request re_match opens d u q ep) (P.an_auth a)) = PC.CSaved s).
 Proof.
-  unfold P.router.
-  destruct (negb (str_eqb (ReqUri.clean_path (P.rq_path q)) (P.rq_path q))); [cbn; discriminate|].
-  destruct (P.route_of_path (P.rq_path q)) eqn:Ert; cbn [P.local P.ro_session]; try discriminate.
+  unfold P.router. intros H.
+  destruct (negb (str_eqb (ReqUri.clean_path (P.rq_path q)) (P.rq_path q))); [cbn in H; discriminate|].
+  destruct (P.route_of_path (P.rq_path q)) eqn:Ert; cbn [P.local P.ro_session] in H; try discriminate.
   - (* favicon *)
     right. split; [discriminate|]. exists PC.EFavicon.
     destruct (PC.ao_err _) eqn:Ee.
@@ -154,3 +159,1569 @@ Proof.
 Qed.
 
 End Proxy.
+
+(* ================================================================================================ *)
+(* Part 3 — one step of the authenticator *)
+
+Lemma now_s_of st : (now_ns st / A.ns)%Z = st_now st.
+Proof. unfold now_ns. apply Z.div_mul. unfold A.ns, G.ns. lia. Qed.
+
+Lemma sets_of_in ops s : In s (sets_of ops) <-> In (F.OpSet s) ops.
+Proof.
+  induction ops as [|op ops IH]; cbn; [tauto|]. destruct op as [|s0]; cbn.
+  - rewrite IH. split; [auto | intros [H|H]; [discriminate | exact H]].
+  - rewrite IH. split; intros [H|H]; auto; [left; congruence | left; congruence].
+Qed.
+
+Section Auth.
+Variable lower : str -> str.
+Variable sd : sysdep.
+Let da := sd_a sd.
+
+Definition wf : Prop := A.d_cookie_key da <> A.d_code_key da.
+
+Notation aresp := (auth_resp lower sd).
+
+Lemma routed_presented st q slug k rest :
+  AP.routed da q slug k rest ->
+  presented_a sd st q = Some (slug, k, rest, match A.lookup slug (A.q_sess q) with Some v => find_a st v | None => None end).
+Proof. intros [_ [_ [_ Hf]]]. unfold presented_a. fold da. rewrite Hf. reflexivity. Qed.
+
+(* the cookie the authenticator loads is one it sealed *)
+Lemma loaded_cookie st q x slug k rest c s0 :
+  wf -> AP.routed da q slug k rest ->
+  A.lookup slug (A.q_sess q) = Some c ->
+  A.o_open (a_oracles sd st x) c = Some (A.d_cookie_key da, A.to_back s0) ->
+  exists a, auth_pres sd st q = Some a /\ In a (st_a st) /\ ar_s a = A.to_back s0 /\ ar_val a = c.
+Proof.
+  intros Hwf Hr Hl Ho. cbn [A.o_open a_oracles] in Ho.
+  apply a_open_cases in Ho as [[_ [a [Ha Hs]]]|[Hk _]]; [|exfalso; apply Hwf; exact Hk].
+  exists a. unfold auth_pres. rewrite (routed_presented st q slug k rest Hr), Hl.
+  apply find_a_in in Ha as Ha'. destruct Ha' as [Hin Hv]. auto.
+Qed.
+
+(* every session cookie the authenticator sets: an IdP login (callback) or a re-save of the presented one *)
+Lemma auth_set_cases st q x sc s :
+  wf -> In (F.OpSet s) (A.r_sess_ops (aresp st q x sc)) ->
+  (is_login sd st q = true /\ A.r_sess_ops (aresp st q x sc) = [F.OpSet s] /\
+   F.s_lifetime s = st_now st + A.d_lifetime da /\ F.s_email s <> [] /\
+   F.rule_passes lower (A.fcfg da) (F.s_email s) = true /\
+   exists ts, AP.idp_vouched (auth_kind sd st q) (auth_answers sd st q sc)
+                (B.form_get B.k_code (fst (B.compute_form (A.inner q A.p_callback)))) ts /\
+              T.s_email ts = F.s_email s) \/
+  (is_login sd st q = false /\
+   exists a, auth_pres sd st q = Some a /\ In a (st_a st) /\
+     F.s_email s = B.s_email (ar_s a) /\ F.s_lifetime s = B.s_lifetime_dl (ar_s a) /\
+     st_now st <= B.s_lifetime_dl (ar_s a)).
+Proof.
+  intros Hwf Hin. unfold auth_resp in *.
+  destruct (AP.login_end_to_end lower da q (a_oracles sd st x) (auth_answers sd st q sc) (now_ns st) s Hin)
+    as [slug [k [[Hr H]|[Hr H]]]].
+  - left. cbv zeta in H. destruct H as [_ H].
+    destruct H as (nonce & redirect & ts & _ & _ & _ & _ & _ & _ & Hrd & Hv & Hrule & Hs & _ & _ & Hops & _).
+    rewrite now_s_of in Hs.
+    assert (Hk : auth_kind sd st q = k) by (unfold auth_kind; rewrite (routed_presented st q slug k _ Hr); reflexivity).
+    split. { unfold is_login. rewrite (routed_presented st q slug k _ Hr). apply str_eqb_refl. }
+    split; [exact Hops|]. subst s. cbn [F.redeemed_session F.s_lifetime F.s_email].
+    split; [reflexivity|]. pose proof Hv as [_ [Hne _]]. split; [exact Hne|]. split; [exact Hrule|].
+    exists ts. rewrite Hk. split; [exact Hv | reflexivity].
+  - right. destruct H as [c [s0 [Hl [Ho [Hlt [He [_ [Hlf _]]]]]]]]. rewrite now_s_of in Hlt.
+    destruct (loaded_cookie st q x slug k _ c s0 Hwf Hr Hl Ho) as [a [Hp [Hia [Hs _]]]].
+    split. { unfold is_login. rewrite (routed_presented st q slug k _ Hr). vm_compute. reflexivity. }
+    exists a. rewrite Hs. destruct s0; cbn in *. auto.
+Qed.
+
+End Auth.
+
+Section Auth2.
+Variable lower : str -> str.
+Variable sd : sysdep.
+Let da := sd_a sd.
+Notation aresp := (auth_resp lower sd).
+
+(* while the IdP is down, or for a credential whose grant is revoked, the IdP confirms nothing *)
+Lemma eff_not_refreshed i k g ga sc now s0 s calls :
+  i_down i = true \/ is_revoked i g = true ->
+  ~ AuthFlow_proofs.refreshed_ok now s0 (A.an_refresh (eff_answers i k g ga sc)) s calls.
+Proof.
+  intros Hd [_ [_ [jerr [tok [dur [Hr _]]]]]]. unfold eff_answers in Hr.
+  destruct (i_down i); cbn [A.an_refresh] in Hr; [discriminate|].
+  destruct Hd as [Hd|Hd]; [discriminate|]. rewrite Hd in Hr. unfold revoked_refresh in Hr. discriminate.
+Qed.
+
+Lemma eff_not_validated i k g ga sc now s0 s calls :
+  i_down i = true \/ is_revoked i g = true ->
+  ~ AuthFlow_proofs.validated_ok (A.fkind k) now s0 (A.an_validate (eff_answers i k g ga sc)) s calls.
+Proof.
+  intros Hd [_ [_ [_ [[j [a [Hv [Hj Ha]]]] _]]]]. unfold eff_answers in Hv.
+  destruct (i_down i); cbn [A.an_validate] in Hv; [discriminate|].
+  destruct Hd as [Hd|Hd]; [discriminate|]. rewrite Hd in Hv. unfold revoked_validate in Hv.
+  destruct k; cbn in *; [discriminate|]. inversion Hv; subst. specialize (Ha eq_refl). discriminate.
+Qed.
+
+(* every auth code: minted by /sign_in for the session of a cookie the authenticator itself sealed, whose
+   grant the IdP confirmed in this very request; handed to a URI that is in a configured root domain and
+   carries a MAC the PROXY computed (under a secret equal to the authenticator's) over that URI and a fresh time *)
+Lemma auth_code_cases st q x sc src s :
+  wf sd -> A.r_loc (aresp st q x sc) = A.LCode src s ->
+  exists a, auth_pres sd st q = Some a /\ In a (st_a st) /\
+    F.s_email s = B.s_email (ar_s a) /\ F.s_lifetime s = B.s_lifetime_dl (ar_s a) /\
+    st_now st <= B.s_lifetime_dl (ar_s a) /\
+    A.r_sess_ops (aresp st q x sc) = [F.OpSet s] /\
+    G.valid_redirect_uri src (A.root_domains da) = true /\
+    (forall sch ui h port rest, Url.rfc_split src sch ui h port rest -> G.in_domain (Url.rfc_hostname h) (A.d_proxy_domains da)) /\
+    (exists m t, presented_mac st q = Some m /\ In m (st_m st) /\ sd_psecret sd = A.d_client_secret da /\
+       src ++ G.dec t = mr_uri m ++ G.dec (mr_ts m) /\ now_ns st - t * A.ns <= G.ttl_ns) /\
+    i_down (st_idp st) = false /\ is_revoked (st_idp st) (ar_grant a) = false.
+Proof.
+  intros Hwf Hl. unfold auth_resp in *.
+  destruct (AP.code_end_to_end lower da q (a_oracles sd st x) (auth_answers sd st q sc) (now_ns st) src s Hl)
+    as (slug & k & Hr & Hg & Hsrc & _ & Hdom & _ & Hsig & _ & Hck & _).
+  destruct Hck as (c & s0 & Hlk & Ho & Hlt & _ & He & Hlf & _ & Hops & calls & _ & Hconf).
+  rewrite now_s_of in Hlt, Hconf.
+  destruct (loaded_cookie sd st q x slug k _ c s0 Hwf Hr Hlk Ho) as [a [Hp [Hia [Hs _]]]].
+  exists a. split; [exact Hp|]. split; [exact Hia|]. rewrite Hs.
+  split; [destruct s0; exact He|]. split; [destruct s0; exact Hlf|]. split; [destruct s0; exact Hlt|].
+  split; [exact Hops|].
+  destruct Hg as (_ & _ & _ & Hvr & _). rewrite <- Hsrc in Hvr. split; [exact Hvr|]. split; [exact Hdom|].
+  split.
+  { destruct Hsig as [t [_ [Htag Hfresh]]]. apply sigval_tag in Htag as (b & m & Hb & Hf & Hm & Hk & Hmsg).
+    exists m, t. fold da. split; [|auto].
+    unfold presented_mac. change (B.form_get A.k_sig (fst (B.compute_form (A.inner q A.p_sign_in))))
+      with (AP.sig_value (A.inner q A.p_sign_in)). rewrite Hb. exact Hf. }
+  assert (Hk : auth_kind sd st q = k) by (unfold auth_kind; rewrite (routed_presented sd st q slug k _ Hr); reflexivity).
+  assert (Hgr : auth_grant sd st q = ar_grant a) by (unfold auth_grant; rewrite Hp; reflexivity).
+  unfold auth_answers in Hconf. rewrite Hk, Hgr in Hconf.
+  destruct (i_down (st_idp st)) eqn:Ed.
+  { exfalso. destruct Hconf as [H|H]; [eapply eff_not_refreshed | eapply eff_not_validated]; try exact H; left; exact Ed. }
+  split; [reflexivity|].
+  destruct (is_revoked (st_idp st) (ar_grant a)) eqn:Er; [|reflexivity].
+  exfalso. destruct Hconf as [H|H]; [eapply eff_not_refreshed | eapply eff_not_validated]; try exact H; right; exact Er.
+Qed.
+
+End Auth2.
+
+(* ================================================================================================ *)
+(* Part 3b — the back channel as the proxy model sees it *)
+
+Module BP := V.AuthBack_proofs.
+
+Section Back.
+Variable lower : str -> str.
+
+(* a request routed to one of the four back-channel paths: refused by a gate (405 / 500 / 401: no handler),
+   or answered by exactly that handler for a caller who presented the configured credentials *)
+Lemma back_resp_cases d q o an now slug k h :
+  AP.routed d q slug k (A.rt_path (AP.rt_back h)) ->
+  let r := A.inner q (A.rt_path (AP.rt_back h)) in
+  let e := A.benv d k o an (now / A.ns) in
+  exists rs, A.serve lower d q o an now = AP.of_back d o now k an r rs /\
+    (rs = B.err_resp 405%N \/ rs = B.err_resp 500%N \/ rs = B.err_resp 401%N \/
+     (BP.creds_ok (A.bcfg d) r /\ rs = B.run_handler (A.bcfg d) e h r (Some (BP.the_form r)))).
+Proof.
+  intros Hr r e. rewrite (AP.serve_routed lower d q o an now slug k _ Hr), AP.back_adapter_serve.
+  fold r e. eexists. split; [reflexivity|].
+  unfold B.serve, B.serve_table. change (B.rq_path r) with (A.rt_path (AP.rt_back h)).
+  rewrite AP.b_route_found.
+  destruct (BP.serve_route_cases (A.bcfg d) e (AP.b_route h) r (A.d_pre d) (AP.b_route_both h))
+    as [[_ ->]|[[_ [_ [_ ->]]]|[[_ [_ [_ ->]]]|[_ [_ [Hc ->]]]]]]; auto.
+Qed.
+
+Lemma of_back_err d o now k an r c :
+  A.r_ran (AP.of_back d o now k an r (B.err_resp c)) = None /\
+  A.r_status (AP.of_back d o now k an r (B.err_resp c)) = c /\
+  (forall b, A.r_body (AP.of_back d o now k an r (B.err_resp c)) <> A.BJson b).
+Proof.
+  unfold AP.of_back. cbn. split; [reflexivity|]. split; [reflexivity|].
+  intros b. unfold A.err_body. destruct (A.accept_json r); discriminate.
+Qed.
+
+(* /redeem: a complete token document only for a code the authenticator opens under the auth-code key *)
+Lemma redeem_doc_genuine d q o an now lk e acc rt ex :
+  redeem_doc (jbody lk (A.serve lower d q o an now)) = Some (e, acc, rt, ex) ->
+  lk = LinkUp /\ A.r_status (A.serve lower d q o an now) = 200%N /\
+  exists slug k s, AP.routed d q slug k B.p_redeem /\
+    A.o_open o (B.presented_code (A.inner q B.p_redeem)) = Some (A.d_code_key d, s) /\
+    (now / A.ns <= B.s_refresh_dl s) /\ (now / A.ns <= B.s_lifetime_dl s) /\
+    e = B.s_email s /\ acc = B.s_access s /\ rt = B.s_refresh_tok s /\ ex = B.s_refresh_dl s - now / A.ns /\
+    B.presented_id (A.inner q B.p_redeem) = A.d_client_id d /\
+    B.presented_secret (A.inner q B.p_redeem) = A.d_client_secret d.
+Proof.
+  intros Hd. unfold jbody in Hd. destruct lk; try discriminate. split; [reflexivity|].
+  destruct (A.r_body (A.serve lower d q o an now)) as [| | | | |b| | | |] eqn:Eb; try discriminate.
+  destruct (AP.backchannel_end_to_end lower d q o an now) as (H1 & H2 & _).
+  destruct (H2 b Eb) as [h Hran]. destruct (H1 h Hran) as (slug & k & Hr & _).
+  destruct (back_resp_cases d q o an now slug k h Hr) as [rs [Hs Hc]].
+  rewrite Hs in Eb, Hran |- *.
+  destruct Hc as [->|[->|[->|[[Hi Hsec] ->]]]];
+    try (exfalso; eapply (proj2 (proj2 (of_back_err d o now k an _ _))); exact Eb).
+  unfold AP.of_back in Eb |- *. rewrite BP.run_handler_ran in Eb |- *.
+  unfold A.of_back_handler, A.mk in Eb |- *. cbn [A.r_body A.r_status] in Eb |- *.
+  unfold A.back_body in Eb.
+  destruct (A.has_field _) eqn:Ef; [|destruct h; [| | |]; try discriminate; destruct (B.rs_calls _); try discriminate;
+                                     unfold A.err_body in Eb; destruct (A.accept_json _); discriminate].
+  inversion Eb as [Hb]. clear Eb. rewrite <- Hb in Hd.
+  destruct h; cbn [B.run_handler] in *.
+  - (* profile: no access_token field *)
+    exfalso. unfold B.get_profile in Hd. repeat match type of Hd with context [if ?c then _ else _] => destruct c end;
+      try (destruct (B.e_groups _)); cbn in Hd; discriminate.
+  - (* validate: no document *)
+    exfalso. unfold B.validate_token in Hd. repeat match type of Hd with context [if ?c then _ else _] => destruct c end;
+      cbn in Hd; discriminate.
+  - (* redeem *)
+    change (A.rt_path (AP.rt_back B.HRedeem)) with B.p_redeem in *.
+    unfold B.redeem in *. cbn [B.parse_form] in *.
+    unfold B.unseal in *. cbn [A.benv B.e_open B.e_now A.bcfg B.cfg_code_key] in *.
+    change (B.form_get B.k_code (B.form_of (Some (BP.the_form (A.inner q B.p_redeem)))))
+      with (B.presented_code (A.inner q B.p_redeem)) in *.
+    destruct (A.o_open o (B.presented_code (A.inner q B.p_redeem))) as [[k0 s]|] eqn:Eo; [|cbn in Hd; discriminate].
+    destruct (N.eqb k0 (A.d_code_key d)) eqn:Ek; [|cbn in Hd; discriminate].
+    apply N.eqb_eq in Ek. subst k0.
+    destruct ((B.s_refresh_dl s <? now / A.ns) || (B.s_lifetime_dl s <? now / A.ns)) eqn:Et; [cbn in Hd; discriminate|].
+    apply orb_false_iff in Et as [Et1 Et2]. apply Z.ltb_ge in Et1, Et2.
+    cbn in Hd. inversion Hd; subst. split; [reflexivity|].
+    exists slug, k, s. split; [exact Hr|]. repeat split; auto.
+  - (* refresh: no refresh_token field *)
+    exfalso. unfold B.refresh in Hd. cbn [B.parse_form] in Hd.
+    repeat match type of Hd with context [if ?c then _ else _] => destruct c end;
+      try (destruct (B.e_refresh _)); cbn in Hd; discriminate.
+Qed.
+
+End Back.
+
+(* ================================================================================================ *)
+(* Part 4 — the provenance invariant over all histories *)
+
+Section Inv.
+Variable re_match : str -> str -> bool.
+Variable re_replace : str -> str -> str -> str.
+Variable lower : str -> str.
+Variable sd : sysdep.
+Let d := sd_p sd.
+Let da := sd_a sd.
+
+Notation step := (SystemAll.step re_match re_replace lower sd).
+Notation run := (SystemAll.run re_match re_replace lower sd).
+
+(* the IdP vouched: a code exchange answered 200 with tokens, and the verified e-mail of the id_token
+   payload (Google) / of the userinfo answer (Okta) is the recorded one; the authenticator's rule admits it *)
+Definition vouch_ok (v : vrec) : Prop :=
+  (exists ts, AP.idp_vouched (vr_kind v) (vr_an v) (vr_idp_code v) ts /\ T.s_email ts = vr_email v) /\
+  F.rule_passes lower (A.fcfg da) (vr_email v) = true /\ vr_email v <> [].
+
+Definition a_ok (st : state) (a : arec) : Prop :=
+  exists g v, ar_grant a = Some g /\ nth_error (st_v st) g = Some v /\
+    B.s_email (ar_s a) = vr_email v /\ B.s_lifetime_dl (ar_s a) = vr_at v + A.d_lifetime da /\
+    vr_at v <= ar_at a /\ ar_at a <= st_now st.
+
+(* the URI carries a MAC the proxy computed under a secret equal to the authenticator's, over a text equal
+   to this URI followed by a decimal time at most five minutes old *)
+Definition signed_by_proxy (st : state) (c : crec) : Prop :=
+  exists m t, cr_sig c = Some m /\ In m (st_m st) /\ sd_psecret sd = A.d_client_secret da /\
+    cr_uri c ++ G.dec t = mr_uri m ++ G.dec (mr_ts m) /\ cr_at c * A.ns - t * A.ns <= G.ttl_ns.
+
+Definition c_ok (st : state) (c : crec) : Prop :=
+  exists g v, cr_grant c = Some g /\ nth_error (st_v st) g = Some v /\
+    B.s_email (cr_s c) = vr_email v /\ B.s_lifetime_dl (cr_s c) = vr_at v + A.d_lifetime da /\
+    vr_at v <= cr_at c /\ cr_at c <= st_now st /\ cr_at c <= B.s_lifetime_dl (cr_s c) /\
+    G.valid_redirect_uri (cr_uri c) (A.root_domains da) = true /\
+    (forall sch ui h port rest, Url.rfc_split (cr_uri c) sch ui h port rest ->
+       G.in_domain (Url.rfc_hostname h) (A.d_proxy_domains da)) /\
+    signed_by_proxy st c.
+
+(* the redeem request the proxy builds from ITS configuration presents the credentials the authenticator
+   is configured with *)
+Definition creds_presented (slug host code : str) : Prop :=
+  let r := A.inner (rq_redeem sd slug host code) B.p_redeem in
+  B.presented_id r = A.d_client_id da /\ B.presented_secret r = A.d_client_secret da.
+
+Definition p_ok (st : state) (p : prec) : Prop :=
+  exists c u code, In c (st_c st) /\ pr_code p = Some (cr_val c) /\ pr_grant p = cr_grant c /\
+    PC.s_email (pr_s p) = B.s_email (cr_s c) /\
+    PC.s_lifetime_dl (pr_s p) = pr_login p + P.dp_L d /\
+    PC.s_upstream (pr_s p) = pr_host p /\
+    P.route_ext re_match (P.dp_ups d) (pr_host p) = Some u /\ PC.s_slug (pr_s p) = P.slug_of d u /\
+    (exists ans, login_gate lower (Hostmux.u_policy (P.up_hm u)) (PC.s_email (pr_s p)) ans = true) /\
+    creds_presented (P.slug_of d u) (pr_host p) code /\
+    cr_at c <= pr_login p /\ pr_login p <= B.s_refresh_dl (cr_s c) /\ pr_login p <= B.s_lifetime_dl (cr_s c) /\
+    pr_login p <= pr_conf p /\ pr_conf p <= pr_at p /\ pr_at p <= st_now st /\
+    PC.s_valid_dl (pr_s p) <= pr_conf p + P.dp_V d /\
+    (pr_real p = false -> In (pr_conf p) (st_out st)).
+
+Definition Inv (st : state) : Prop :=
+  Forall vouch_ok (st_v st) /\ Forall (a_ok st) (st_a st) /\ Forall (c_ok st) (st_c st) /\ Forall (p_ok st) (st_p st) /\
+  Forall (fun v => vr_at v <= st_now st) (st_v st).
+
+Lemma inv_init t0 : Inv (init t0).
+Proof. unfold Inv, init. cbn. repeat split; constructor. Qed.
+
+(* ---- monotonicity of the clauses in the state ---- *)
+Definition extends (st st' : state) : Prop :=
+  st_now st <= st_now st' /\ (exists l, st_v st' = st_v st ++ l) /\ (exists l, st_c st' = st_c st ++ l) /\
+  (exists l, st_m st' = st_m st ++ l) /\ (forall t, In t (st_out st) -> In t (st_out st')).
+
+Lemma nth_error_app_l {X} (l l' : list X) n x : nth_error l n = Some x -> nth_error (l ++ l') n = Some x.
+Proof. intros H. rewrite nth_error_app1; [exact H|]. apply nth_error_Some. congruence. Qed.
+
+Lemma a_ok_mono st st' a : extends st st' -> a_ok st a -> a_ok st' a.
+Proof.
+  intros (Hn & [lv Hv] & _) (g & v & H1 & H2 & H3 & H4 & H5 & H6).
+  exists g, v. rewrite Hv. split; [exact H1|]. split; [apply nth_error_app_l; exact H2|].
+  split; [exact H3|]. split; [exact H4|]. split; [exact H5|]. lia.
+Qed.
+
+Lemma signed_mono st st' c : extends st st' -> signed_by_proxy st c -> signed_by_proxy st' c.
+Proof.
+  intros (_ & _ & _ & [lm Hm] & _) (m & t0 & H0 & H1 & H2 & H3 & H4). exists m, t0. rewrite Hm.
+  repeat split; auto. apply in_or_app. left. exact H1.
+Qed.
+
+Lemma c_ok_mono st st' c : extends st st' -> c_ok st c -> c_ok st' c.
+Proof.
+  intros He (g & v & H1 & H2 & H3 & H4 & H5 & H6 & H7 & H8 & H9 & H10).
+  pose proof He as (Hn & [lv Hv] & _).
+  exists g, v. rewrite Hv. split; [exact H1|]. split; [apply nth_error_app_l; exact H2|].
+  split; [exact H3|]. split; [exact H4|]. split; [exact H5|]. split; [lia|]. split; [exact H7|].
+  split; [exact H8|]. split; [exact H9|]. eapply signed_mono; eauto.
+Qed.
+
+Lemma p_ok_mono st st' p : extends st st' -> p_ok st p -> p_ok st' p.
+Proof.
+  intros (Hn & _ & [lc Hc] & _ & Ho) (c & u & code & H). exists c, u, code. rewrite Hc.
+  destruct H as (H1 & H2 & H3 & H4 & H5 & H6 & H7 & H8 & H9 & H10 & H11 & H12 & H13 & H14 & H15 & H16 & H17 & H18).
+  split; [apply in_or_app; left; exact H1|].
+  repeat (split; [assumption|]). split; [lia|]. split; [assumption|]. intros Hf. apply Ho, H18, Hf.
+Qed.
+
+Lemma extends_refl st : extends st st.
+Proof. unfold extends. repeat split; try lia; try (exists []; rewrite app_nil_r; reflexivity); auto. Qed.
+
+End Inv.
+
+(* ---- ProxyCore: what a re-save is ---- *)
+Section Resave.
+Variable lower : str -> str.
+
+Lemma handle_saved_auth now c u r a s' :
+  PC.rs_cookie (PC.handle lower now c u r a) = PC.CSaved s' ->
+  PC.ao_cookie (PC.authenticate lower now c u (PC.r_host r) (PC.r_cookie r) a) = PC.CSaved s'.
+Proof.
+  assert (P0 : forall s1, PC.rs_cookie (PC.proxy_handle lower now c u r a) = PC.CSaved s1 ->
+                PC.ao_cookie (PC.authenticate lower now c u (PC.r_host r) (PC.r_cookie r) a) = PC.CSaved s1).
+  { intros s1. unfold PC.proxy_handle. destruct (PC.whitelisted u r); [discriminate|].
+    destruct (PC.ao_err (PC.authenticate lower now c u (PC.r_host r) (PC.r_cookie r) a)); auto. }
+  unfold PC.handle. destruct (PC.r_endpoint r).
+  - apply P0.
+  - cbn. auto.
+  - destruct (PC.ao_err (PC.authenticate lower now c u (PC.r_host r) (PC.r_cookie r) a)); [cbn; auto|].
+    cbn. destruct (PC.rs_cookie (PC.proxy_handle lower now c u r a)) eqn:Ep; try discriminate.
+    + auto.
+    + intros H; inversion H; subst. apply P0. reflexivity.
+Qed.
+
+(* a re-save that moved the validity deadline under a grace stamp happened on an "unavailable" answer *)
+Lemma authenticate_saved_grace now c u host s a s' :
+  PC.ao_cookie (PC.authenticate lower now c u host (PC.Sealed s) a) = PC.CSaved s' ->
+  PC.s_valid_dl s' <> PC.s_valid_dl s -> PC.s_grace s' <> None -> saw_unavailable a = true.
+Proof.
+  unfold PC.authenticate, PC.expired.
+  destruct (negb (str_eqb (PC.s_slug s) (PC.c_slug c))); [discriminate|].
+  destruct (negb (str_eqb host (PC.s_upstream s))); [discriminate|].
+  destruct (PC.s_lifetime_dl s <? now); [discriminate|].
+  destruct (PC.s_refresh_dl s <? now) eqn:Er.
+  - destruct (PC.refresh_session now c (p_groups (PC.u_rules u)) s a) as [[r s1] calls] eqn:Erf.
+    pose proof (PCP.refresh_preserves _ _ _ _ _ _ _ _ Erf) as [_ [_ [_ [_ [Hv _]]]]].
+    destruct r; try discriminate.
+    destruct (request_gate lower (PC.u_rules u) (PC.s_email s1)); [|discriminate].
+    cbn. intros H; inversion H; subst. intros Hne. contradiction.
+  - destruct (PC.s_valid_dl s <? now) eqn:Ev.
+    + destruct (PC.validate_session now c (p_groups (PC.u_rules u)) s a) as [[ok s1] calls] eqn:Evs.
+      destruct ok; [|discriminate].
+      destruct (request_gate lower (PC.u_rules u) (PC.s_email s1)); [|discriminate].
+      cbn. intros H; inversion H; subst. intros _ Hg.
+      destruct (PCP.grace_stamp_validate _ _ _ _ _ _ _ Evs) as [[_ Hn]|[Ho _]]; [contradiction|].
+      unfold saw_unavailable, unavail_ans.
+      destruct Ho as [[code [Ha Hu]]|[_ [_ Hu]]].
+      * rewrite Ha, Hu. rewrite orb_true_r. reflexivity.
+      * unfold PC.user_groups in Hu. destruct (PC.a_profile a) as [cp|]; [|discriminate].
+        destruct (cp =? 200); [destruct (PC.a_profile_body a); discriminate|].
+        destruct (PC.unavailable cp) eqn:Eu; [|discriminate]. rewrite !orb_true_r. reflexivity.
+    + destruct (request_gate lower (PC.u_rules u) (PC.s_email s)); discriminate.
+Qed.
+
+End Resave.
+
+(* the presented session cookie as the proxy model opens it is the jar record the system model finds *)
+Lemma session_cookie_presented sd st q s :
+  P.session_cookie (p_opens st) (sd_p sd) q = PC.Sealed s ->
+  exists r, presented_p sd st q = Some r /\ pr_s r = s /\ In r (st_p st).
+Proof.
+  unfold P.session_cookie, presented_p.
+  destruct (find _ (ReqHeaders.read_cookies _)) as [c|]; [|discriminate].
+  unfold p_opens. destruct (find_p st (ReqHeaders.c_value c)) as [r|] eqn:E; cbn; [|discriminate].
+  intros H; inversion H; subst. exists r. apply find_p_in in E as [Hin _]. auto.
+Qed.
+
+
+Section InvStep.
+Variable re_match : str -> str -> bool.
+Variable re_replace : str -> str -> str -> str.
+Variable lower : str -> str.
+Variable sd : sysdep.
+Let d := sd_p sd.
+Let da := sd_a sd.
+Hypothesis Hwf : wf sd.
+
+Notation INV := (Inv re_match lower sd).
+Notation p_ok := (p_ok re_match lower sd).
+Notation c_ok := (c_ok sd).
+Notation a_ok := (a_ok sd).
+Notation pstep := (proxy_step re_match re_replace lower sd).
+Notation astep := (auth_step lower sd).
+Notation poutc := (proxy_outcome re_match re_replace lower sd).
+
+Lemma is_callback_iff q : is_callback q = true <-> P.route_of_path (P.rq_path q) = P.RtCallback.
+Proof. unfold is_callback. destruct (P.route_of_path (P.rq_path q)); split; intros H; try discriminate; reflexivity. Qed.
+
+Lemma proxy_step_extends st q bk lk sc : extends st (fst (pstep st q bk lk sc)).
+Proof.
+  unfold proxy_step, extends. cbn [fst st_now st_v st_c st_m st_out]. split; [lia|].
+  split; [exists []; rewrite app_nil_r; reflexivity|]. split; [exists []; rewrite app_nil_r; reflexivity|].
+  split.
+  - destruct (new_mrec _ _ _ _); [eexists; reflexivity | exists []; rewrite app_nil_r; reflexivity].
+  - intros t Ht. destruct (_ || _); [right|]; exact Ht.
+Qed.
+
+Lemma new_prec_ok st q bk lk sc r :
+  INV st ->
+  new_prec re_match sd st q (poutc st q bk lk sc) = Some r ->
+  p_ok (fst (pstep st q bk lk sc)) r.
+Proof.
+  intros HI Hn. set (st' := fst (pstep st q bk lk sc)).
+  assert (Hext : extends st st') by apply proxy_step_extends.
+  destruct HI as (HV & HA & HC & HP & HT).
+  unfold new_prec in Hn. set (oc := poutc st q bk lk sc) in *.
+  destruct (P.oc_session oc) as [| |s'] eqn:Es; try discriminate.
+  destruct (P.oc_upstream oc) as [u|] eqn:Eu; [|discriminate].
+  unfold oc, proxy_outcome in Es, Eu.
+  destruct (serve_saved_cases re_match re_replace lower _ _ _ _ _ _ Es) as [u0 [Hr [Hu Hc]]].
+  rewrite Eu in Hu. inversion Hu; subst u0. clear Hu.
+  destruct Hc as [[Hrt [Hs' [Hrd [Hcode [e [acc [rt [ex [Hb [He Hg]]]]]]]]]]|[Hrt [ep Hh]]].
+  - (* a login *)
+    apply is_callback_iff in Hrt as Hcb. rewrite Hcb in Hn. inversion Hn; subst r. clear Hn.
+    pose proof Hb as Hb0.
+    cbn [P.an_redeem_body bc_answers] in Hb.
+    apply (redeem_doc_genuine lower) in Hb as (Hlk & _ & slug & k & s & Hrouted & Ho & Ht1 & Ht2 & -> & -> & -> & -> & Hid & Hsec).
+    rewrite now_s_of in Ht1, Ht2.
+    cbn [A.o_open a_oracles] in Ho. apply a_open_cases in Ho as [[Hk _]|[_ [_ [c [Hfc Hcs]]]]]; [exfalso; apply Hwf; symmetry; exact Hk|].
+    assert (Hslug : proxy_slug re_match sd q = P.slug_of (sd_p sd) u).
+    { unfold proxy_slug, proxy_up. rewrite Hr. reflexivity. }
+    change (B.presented_code _) with (redeemed_code re_match sd q) in Hfc.
+    apply find_c_in in Hfc as Hc'. destruct Hc' as [Hcin Hcv].
+    rewrite Forall_forall in HC. destruct (HC c Hcin) as (g & v & G1 & G2 & G3 & G4 & G5 & G6 & _).
+    exists c, u, (P.cb_code q). cbn [pr_code pr_grant pr_s pr_login pr_host pr_conf pr_at pr_real].
+    split. { unfold st'. unfold proxy_step. cbn [fst st_c]. exact Hcin. }
+    rewrite Hfc. cbn [option_map]. split; [reflexivity|].
+    split. { unfold proxy_grant. rewrite Hcb, Hfc. reflexivity. }
+    subst s'. unfold P.mint_session. rewrite Hb0.
+    cbn [PC.s_email PC.s_lifetime_dl PC.s_upstream PC.s_slug PC.s_valid_dl].
+    subst s. split; [reflexivity|]. split; [reflexivity|]. split; [reflexivity|]. split; [exact Hr|].
+    split; [reflexivity|]. split; [eexists; exact Hg|].
+    split. { unfold creds_presented. rewrite <- Hslug. split; assumption. }
+    split; [exact G6|]. split; [exact Ht1|]. split; [exact Ht2|].
+    split; [lia|]. split; [lia|]. split; [destruct Hext; lia|]. split; [lia|]. discriminate.
+  - (* a re-save of the presented session *)
+    assert (Hncb : is_callback q = false).
+    { destruct (is_callback q) eqn:E; [|reflexivity]. apply is_callback_iff in E. contradiction. }
+    rewrite Hncb in Hn.
+    apply handle_saved_auth in Hh as Ha. cbn [PC.r_host PC.r_cookie P.pc_request] in Ha.
+    destruct (P.session_cookie (p_opens st) (sd_p sd) q) as [| |s] eqn:Eck; [cbn in Ha; discriminate | cbn in Ha; discriminate |].
+    destruct (session_cookie_presented sd st q s Eck) as [r0 [Hp [Hs0 Hin0]]].
+    rewrite Hp in Hn. inversion Hn; subst r. clear Hn.
+    rewrite Forall_forall in HP. destruct (HP r0 Hin0) as (c & u0 & code & K).
+    destruct K as (K1 & K2 & K3 & K4 & K5 & K6 & K7 & K8 & K9 & K10 & K11 & K12 & K13 & K14 & K15 & K16 & K17 & K18).
+    destruct (PCP.authenticate_saved_preserves lower _ _ _ _ _ _ _ Ha) as (Q1 & Q2 & Q3 & Q4 & _ & _ & Q7 & _).
+    destruct Hext as (E1 & _ & _ & _ & E5).
+    exists c, u0, code. cbn [pr_code pr_grant pr_s pr_login pr_host pr_conf pr_at pr_real].
+    rewrite Hs0 in *.
+    split. { unfold st', proxy_step. cbn [fst st_c]. exact K1. }
+    split; [exact K2|]. split; [exact K3|]. split; [congruence|]. split; [congruence|]. split; [congruence|].
+    split; [exact K7|]. split; [congruence|]. split; [rewrite Q4; exact K9|]. split; [exact K10|].
+    split; [exact K11|]. split; [exact K12|]. split; [exact K13|].
+    destruct (PC.s_valid_dl s' =? PC.s_valid_dl s) eqn:Esame.
+    + apply Z.eqb_eq in Esame. split; [exact K14|]. split; [lia|]. split; [unfold st', proxy_step; cbn [fst st_now]; lia|].
+      split; [lia|]. intros Hf. apply E5, K18, Hf.
+    + apply Z.eqb_neq in Esame. destruct Q7 as [Q7|Q7]; [contradiction|].
+      cbn [PC.c_V P.pc_cfg] in Q7.
+      split; [lia|]. split; [lia|]. split; [unfold st', proxy_step; cbn [fst st_now]; lia|]. split; [lia|].
+      destruct (PC.s_grace s') as [g0|] eqn:Eg; [|discriminate]. intros _.
+      assert (Hsaw : saw_unavailable (P.an_auth (bc_answers lk (bc_run re_match lower sd st q lk sc) bk)) = true).
+      { eapply authenticate_saved_grace; [exact Ha | exact Esame | rewrite Eg; discriminate]. }
+      unfold st', proxy_step. cbn [fst st_out]. rewrite Hsaw, orb_true_r. left. reflexivity.
+Qed.
+
+Lemma inv_proxy_step st q bk lk sc : INV st -> INV (fst (pstep st q bk lk sc)).
+Proof.
+  intros HI. pose proof (proxy_step_extends st q bk lk sc) as Hext.
+  pose proof (new_prec_ok st q bk lk sc) as Hnew.
+  destruct HI as (HV & HA & HC & HP & HT). set (st' := fst (pstep st q bk lk sc)) in *.
+  assert (Ev : st_v st' = st_v st) by reflexivity.
+  assert (Ea : st_a st' = st_a st) by reflexivity.
+  assert (Ec : st_c st' = st_c st) by reflexivity.
+  unfold Inv. rewrite Ev, Ea, Ec.
+  split; [exact HV|].
+  split. { eapply Forall_impl; [|exact HA]. intros a Ha0. eapply a_ok_mono; [exact Hext | exact Ha0]. }
+  split. { eapply Forall_impl; [|exact HC]. intros c Hc0. eapply c_ok_mono; [exact Hext | exact Hc0]. }
+  split.
+  - assert (HP' : Forall (p_ok st') (st_p st)).
+    { eapply Forall_impl; [|exact HP]. intros p Hp0. eapply p_ok_mono; try exact Hext; try exact Hp0; exact re_replace. }
+    unfold st' at 2. unfold proxy_step. cbn [fst st_p].
+    destruct (new_prec re_match sd st q _) as [r|] eqn:En; [|exact HP'].
+    apply Forall_app. split; [exact HP'|]. constructor; [|constructor].
+    apply Hnew; [repeat split; assumption | reflexivity].
+  - eapply Forall_impl; [|exact HT]. intros v Hv. destruct Hext as [E1 _]. cbn beta in *. lia.
+Qed.
+
+End InvStep.
+
+Section InvStepA.
+Variable re_match : str -> str -> bool.
+Variable re_replace : str -> str -> str -> str.
+Variable lower : str -> str.
+Variable sd : sysdep.
+Hypothesis Hwf : wf sd.
+
+Notation INV := (Inv re_match lower sd).
+Notation p_ok := (p_ok re_match lower sd).
+Notation c_ok := (c_ok sd).
+Notation a_ok := (a_ok sd).
+Notation astep := (auth_step lower sd).
+Notation aresp := (auth_resp lower sd).
+
+Lemma auth_step_extends st q x sc : extends st (fst (astep st q x sc)).
+Proof.
+  unfold auth_step, extends. cbn [fst st_now st_v st_c st_m st_out]. split; [lia|].
+  split; [eexists; reflexivity|]. split; [eexists; reflexivity|].
+  split; [exists []; rewrite app_nil_r; reflexivity|]. auto.
+Qed.
+
+Lemma add_cookies_forall (Q : arec -> Prop) slug g now : forall ss l,
+  Forall Q l ->
+  (forall s n, In s ss -> Q {| ar_val := name tag_a n; ar_s := A.to_back s; ar_slug := slug; ar_grant := g; ar_at := now |}) ->
+  Forall Q (add_cookies l slug g now ss).
+Proof.
+  induction ss as [|s ss IH]; intros l Hl Hs; cbn [add_cookies]; [exact Hl|].
+  apply IH.
+  - apply Forall_app. split; [exact Hl|]. constructor; [|constructor]. apply Hs. left. reflexivity.
+  - intros s0 n Hin. apply Hs. right. exact Hin.
+Qed.
+
+Lemma inv_auth_step st q x sc : INV st -> INV (fst (astep st q x sc)).
+Proof.
+  intros HI. pose proof (auth_step_extends st q x sc) as Hext.
+  destruct HI as (HV & HA & HC & HP & HT). set (st' := fst (astep st q x sc)) in *.
+  set (r := aresp st q x sc).
+  assert (Ev : st_v st' = st_v st ++ new_vrecs sd st q sc r) by reflexivity.
+  assert (Ec : st_c st' = st_c st ++ new_crecs sd st q r) by reflexivity.
+  assert (Ep : st_p st' = st_p st) by reflexivity.
+  assert (En : st_now st' = st_now st) by reflexivity.
+  assert (Em : st_m st' = st_m st) by reflexivity.
+  pose proof (auth_set_cases lower sd st q x sc) as Hset. fold r in Hset.
+  (* the vouch record of a login *)
+  assert (Hlogin : forall s, In s (sets_of (A.r_sess_ops r)) -> is_login sd st q = true ->
+            A.r_sess_ops r = [F.OpSet s] /\
+            new_vrecs sd st q sc r = [{| vr_email := F.s_email s; vr_slug := auth_slug sd st q; vr_kind := auth_kind sd st q;
+                    vr_idp_code := B.form_get B.k_code (fst (B.compute_form (A.inner q A.p_callback)));
+                    vr_an := auth_answers sd st q sc; vr_at := st_now st |}]).
+  { intros s Hin Hl. apply sets_of_in in Hin. destruct (Hset s Hwf Hin) as [[_ [Hops _]]|[Hl' _]]; [|congruence].
+    split; [exact Hops|]. unfold new_vrecs. rewrite Hl, Hops. reflexivity. }
+  unfold Inv. split; [|split; [|split; [|split]]].
+  - (* vouches *)
+    rewrite Ev. apply Forall_app. split; [exact HV|].
+    unfold new_vrecs. destruct (is_login sd st q) eqn:El; [|constructor].
+    destruct (sets_of (A.r_sess_ops r)) as [|s ss] eqn:Es; [constructor|].
+    constructor; [|constructor].
+    assert (Hin : In (F.OpSet s) (A.r_sess_ops r)) by (apply sets_of_in; rewrite Es; left; reflexivity).
+    destruct (Hset s Hwf Hin) as [[_ [_ [_ [Hne [Hrule [ts [Hv Hem]]]]]]]|[Hl' _]]; [|congruence].
+    unfold vouch_ok. cbn [vr_email vr_kind vr_an vr_idp_code]. split; [exists ts; split; assumption|]. split; assumption.
+  - (* authenticator cookies *)
+    unfold st' at 2. unfold auth_step. cbn [fst st_a]. fold r.
+    apply add_cookies_forall.
+    + eapply Forall_impl; [|exact HA]. intros a Ha0. eapply a_ok_mono; [exact Hext | exact Ha0].
+    + intros s n Hin. pose proof Hin as Hin'. apply sets_of_in in Hin'.
+      destruct (Hset s Hwf Hin') as [[Hl [Hops [Hlife _]]]|[Hl [a0 [Hp0 [Hia0 [He0 [Hl0 _]]]]]]].
+      * destruct (Hlogin s Hin Hl) as [_ Hnv].
+        exists (length (st_v st)), {| vr_email := F.s_email s; vr_slug := auth_slug sd st q; vr_kind := auth_kind sd st q;
+                    vr_idp_code := B.form_get B.k_code (fst (B.compute_form (A.inner q A.p_callback)));
+                    vr_an := auth_answers sd st q sc; vr_at := st_now st |}.
+        cbn [ar_grant ar_s ar_at vr_email vr_at]. split.
+        { unfold grant_after. rewrite Hl. destruct (sets_of (A.r_sess_ops r)); [destruct Hin | reflexivity]. }
+        split. { rewrite Ev, Hnv. rewrite nth_error_app2; [rewrite Nat.sub_diag; reflexivity | apply Nat.le_refl]. }
+        destruct s; cbn in *. repeat split; auto; lia.
+      * rewrite Forall_forall in HA. destruct (HA a0 Hia0) as (g & v & G1 & G2 & G3 & G4 & G5 & G6).
+        exists g, v. cbn [ar_grant ar_s ar_at]. split.
+        { unfold grant_after. rewrite Hl. unfold auth_grant. rewrite Hp0. exact G1. }
+        split. { rewrite Ev. apply nth_error_app_l. exact G2. }
+        destruct s; cbn in *. repeat split; try congruence; lia.
+  - (* codes *)
+    rewrite Ec. apply Forall_app. split.
+    + eapply Forall_impl; [|exact HC]. intros c Hc0. eapply c_ok_mono; [exact Hext | exact Hc0].
+    + unfold new_crecs. destruct (A.r_loc r) as [| |src s| |] eqn:El; try apply Forall_nil. constructor; [|constructor].
+      destruct (auth_code_cases lower sd st q x sc src s Hwf El) as (a0 & Hp0 & Hia0 & He0 & Hl0 & Hlt & _ & Hvr & Hdom & Hsig & _).
+      rewrite Forall_forall in HA. destruct (HA a0 Hia0) as (g & v & G1 & G2 & G3 & G4 & G5 & G6).
+      exists g, v. cbn [cr_grant cr_s cr_at cr_uri]. split; [unfold auth_grant; rewrite Hp0; exact G1|].
+      split; [rewrite Ev; apply nth_error_app_l; exact G2|].
+      destruct Hsig as (m & t & Hpm & Hm & Hk & Hmsg & Hfresh).
+      destruct s; cbn in *. split; [congruence|]. split; [congruence|]. split; [lia|]. split; [lia|]. split; [lia|].
+      split; [exact Hvr|]. split; [exact Hdom|].
+      exists m, t. cbn [st_m cr_sig cr_uri cr_at]. unfold now_ns in Hfresh. auto.
+  - (* proxy cookies *)
+    rewrite Ep. eapply Forall_impl; [|exact HP]. intros p Hp0. eapply p_ok_mono; try exact Hext; try exact Hp0; exact re_replace.
+  - rewrite Ev, En. apply Forall_app. split; [exact HT|].
+    unfold new_vrecs. destruct (is_login sd st q); [|constructor].
+    destruct (sets_of (A.r_sess_ops r)); constructor; [cbn; lia | constructor].
+Qed.
+
+End InvStepA.
+
+(* ---- all events, all histories ---- *)
+Section InvRun.
+Variable re_match : str -> str -> bool.
+Variable re_replace : str -> str -> str -> str.
+Variable lower : str -> str.
+Variable sd : sysdep.
+Hypothesis Hwf : wf sd.
+
+Notation INV := (Inv re_match lower sd).
+Notation step := (SystemAll.step re_match re_replace lower sd).
+Notation run := (SystemAll.run re_match re_replace lower sd).
+
+Lemma inv_same st st' :
+  st_now st <= st_now st' -> st_p st' = st_p st -> st_a st' = st_a st -> st_c st' = st_c st -> st_v st' = st_v st ->
+  st_m st' = st_m st -> st_out st' = st_out st -> INV st -> INV st'.
+Proof.
+  intros Hn Ep Ea Ec Ev Em Eo (HV & HA & HC & HP & HT).
+  assert (Hext : extends st st').
+  { unfold extends. rewrite Ev, Ec, Em, Eo. split; [exact Hn|]. repeat split; try (exists []; rewrite app_nil_r; reflexivity); auto. }
+  unfold Inv. rewrite Ep, Ea, Ec, Ev.
+  split; [exact HV|].
+  split. { eapply Forall_impl; [|exact HA]. intros a Ha0. eapply a_ok_mono; [exact Hext | exact Ha0]. }
+  split. { eapply Forall_impl; [|exact HC]. intros c Hc0. eapply c_ok_mono; [exact Hext | exact Hc0]. }
+  split. { eapply Forall_impl; [|exact HP]. intros p Hp0. eapply p_ok_mono; try exact Hext; try exact Hp0; exact re_replace. }
+  eapply Forall_impl; [|exact HT]. intros v Hv. cbn beta in *. lia.
+Qed.
+
+Lemma inv_step st e : INV st -> INV (fst (step st e)).
+Proof.
+  intros HI. destruct e as [dt|c|q bk lk sc|q x sc]; cbn [SystemAll.step].
+  - cbn [fst]. apply (inv_same st); try reflexivity; try exact HI; cbn; lia.
+  - cbn [fst]. apply (inv_same st); try reflexivity; try exact HI; cbn; lia.
+  - pose proof (inv_proxy_step re_match re_replace lower sd Hwf st q bk lk sc HI) as H.
+    destruct (proxy_step re_match re_replace lower sd st q bk lk sc) as [st' o]. exact H.
+  - pose proof (inv_auth_step re_match re_replace lower sd Hwf st q x sc HI) as H.
+    destruct (auth_step lower sd st q x sc) as [st' o]. exact H.
+Qed.
+
+Lemma run_inv : forall evs st st' tr, run st evs = (st', tr) -> INV st ->
+  INV st' /\ forall s e o, In (s, e, o) tr -> INV s /\ o = snd (step s e).
+Proof.
+  induction evs as [|e evs IH]; intros st st' tr Hr HI; cbn [SystemAll.run] in Hr.
+  - inversion Hr; subst. split; [exact HI|]. intros s e o [].
+  - destruct (step st e) as [st1 o1] eqn:E1. destruct (run st1 evs) as [st2 tr2] eqn:E2.
+    inversion Hr; subst. pose proof (inv_step st e HI) as HI1. rewrite E1 in HI1. cbn [fst] in HI1.
+    destruct (IH st1 st' tr2 E2 HI1) as [H1 H2]. split; [exact H1|].
+    intros s e0 o [Heq|Hin].
+    + inversion Heq; subst. split; [exact HI|]. rewrite E1. reflexivity.
+    + apply H2. exact Hin.
+Qed.
+
+End InvRun.
+
+(* ================================================================================================ *)
+(* Part 5 — the system theorems *)
+
+Section Theorems.
+Variable re_match : str -> str -> bool.
+Variable re_replace : str -> str -> str -> str.
+Variable lower : str -> str.
+Variable sd : sysdep.
+Hypothesis Hwf : wf sd.
+
+Notation INV := (Inv re_match lower sd).
+Notation step := (SystemAll.step re_match re_replace lower sd).
+Notation run := (SystemAll.run re_match re_replace lower sd).
+
+(* the provenance of an identity: see SYS_identity_vouched *)
+Definition identity_chain (st : state) (q : P.request) (u : P.iupstream) (e : str) : Prop :=
+  exists p c g v,
+    presented_p sd st q = Some p /\ In p (st_p st) /\ PC.s_email (pr_s p) = e /\ pr_host p = P.rq_host q /\
+    pr_login p <= st_now st /\ st_now st <= pr_login p + P.dp_L (sd_p sd) /\
+    (exists ans, login_gate lower (Hostmux.u_policy (P.up_hm u)) e ans = true) /\
+    In c (st_c st) /\ pr_code p = Some (cr_val c) /\ pr_grant p = Some g /\ B.s_email (cr_s c) = e /\
+    (exists code, creds_presented sd (P.slug_of (sd_p sd) u) (P.rq_host q) code) /\
+    cr_at c <= pr_login p /\ pr_login p <= B.s_refresh_dl (cr_s c) /\
+    G.valid_redirect_uri (cr_uri c) (A.root_domains (sd_a sd)) = true /\
+    (forall sch ui h port rest, Url.rfc_split (cr_uri c) sch ui h port rest ->
+       G.in_domain (Url.rfc_hostname h) (A.d_proxy_domains (sd_a sd))) /\
+    signed_by_proxy sd st c /\
+    cr_grant c = Some g /\ nth_error (st_v st) g = Some v /\ vr_email v = e /\ vr_at v <= cr_at c /\
+    vouch_ok lower sd v.
+
+Lemma served_identity st q bk lk sc bv :
+  INV st -> P.oc_backend (proxy_outcome re_match re_replace lower sd st q bk lk sc) = Some bv ->
+  exists u, P.route_ext re_match (P.dp_ups (sd_p sd)) (P.rq_host q) = Some u /\
+    P.bk_target bv = Hostmux.target re_replace (P.rq_host q) (P.up_hm u) /\
+    (P.skip_hit re_match u q = true -> PP.identity_absent (P.bk_handler bv)) /\
+    (forall e, In e (ReqHeaders.h_get ReqHeaders.k_xfe (P.bk_handler bv)) ->
+       P.skip_hit re_match u q = false /\ identity_chain st q u e /\
+       exists s, P.session_cookie (p_opens st) (sd_p sd) q = PC.Sealed s /\
+         PCP.session_ok lower (st_now st) (P.pc_cfg (sd_p sd) u) (P.pc_pol u) (P.rq_host q) s
+           (P.an_auth (bc_answers lk (bc_run re_match lower sd st q lk sc) bk))).
+Proof.
+  intros HI Hb. unfold proxy_outcome in Hb.
+  destruct (PP.backend_reached_only_if re_match re_replace lower _ _ _ _ _ _ Hb)
+    as (u & Hr & _ & _ & _ & Ht & _ & _ & _ & _ & _ & _ & Hmed & _).
+  exists u. split; [exact Hr|]. split; [exact Ht|]. split.
+  - intros Hsk. destruct Hmed as [[_ [_ Habs]]|[s [s' [_ [_ [_ [_ Habs]]]]]]]; [exact Habs | exact (Habs Hsk)].
+  - intros e He.
+    destruct Hmed as [[_ [_ Habs]]|[s [s' [Hck [Hok [Hem [Hid Habs]]]]]]].
+    { exfalso. rewrite (Habs ReqHeaders.k_xfe) in He; [destruct He|]. unfold ReqHeaders.identity_keys. cbn. tauto. }
+    destruct (P.skip_hit re_match u q) eqn:Esk.
+    { exfalso. rewrite (Habs eq_refl ReqHeaders.k_xfe) in He; [destruct He|]. unfold ReqHeaders.identity_keys. cbn. tauto. }
+    split; [reflexivity|]. split; [|exists s; split; [exact Hck | exact Hok]].
+    destruct (Hid eq_refl) as [_ [Hxfe _]]. rewrite Hxfe in He. destruct He as [He|[]]. subst e.
+    destruct (session_cookie_presented sd st q s Hck) as [p [Hp [Hps Hpin]]].
+    destruct HI as (HV & HA & HC & HP & HT).
+    rewrite Forall_forall in HP, HC, HV.
+    destruct (HP p Hpin) as (c & u0 & code & K).
+    destruct K as (K1 & K2 & K3 & K4 & K5 & K6 & K7 & K8 & K9 & K10 & K11 & K12 & K13 & K14 & K15 & K16 & K17 & K18).
+    destruct Hok as (O1 & O2 & O3 & _).
+    rewrite Hps in K4, K5, K6, K8, K9, K17.
+    assert (Hhost : pr_host p = P.rq_host q) by congruence.
+    rewrite Hhost in K7. rewrite Hr in K7. inversion K7; subst u0.
+    destruct (HC c K1) as (g & v & G1 & G2 & G3 & G4 & G5 & G6 & G7 & G8 & G9 & G10).
+    exists p, c, g, v. rewrite Hem.
+    split; [exact Hp|]. split; [exact Hpin|]. split; [rewrite Hps; reflexivity|]. split; [exact Hhost|].
+    split; [lia|]. split; [lia|]. split; [exact K9|]. split; [exact K1|]. split; [exact K2|].
+    split; [congruence|]. split; [congruence|]. split; [exists code; rewrite <- Hhost; exact K10|].
+    split; [exact K11|]. split; [exact K12|]. split; [exact G8|]. split; [exact G9|]. split; [exact G10|].
+    split; [exact G1|]. split; [exact G2|]. split; [congruence|]. split; [exact G5|].
+    apply HV. eapply nth_error_In. exact G2.
+Qed.
+
+End Theorems.
+
+(* ================================================================================================ *)
+(* Part 6 — the back channel under a wired deployment: statuses of /validate, /refresh, /profile *)
+
+Section BackStatus.
+Variable lower : str -> str.
+
+Lemma validate_facts d q o an now slug k :
+  AP.routed d q slug k B.p_validate ->
+  let r := A.serve lower d q o an now in
+  (A.r_status r = 200%N -> F.idp_validates (A.fkind k) (A.an_validate an) = true) /\
+  A.r_status r <> 429%N /\ A.r_status r <> 503%N.
+Proof.
+  intros Hr. cbv zeta.
+  destruct (back_resp_cases lower d q o an now slug k B.HValidate Hr) as [rs [Hs Hc]].
+  rewrite Hs, AP.of_back_status.
+  destruct Hc as [->|[->|[->|[_ ->]]]]; cbn [B.err_resp B.rs_status]; try (repeat split; intros; discriminate).
+  cbn [B.run_handler]. unfold B.validate_token.
+  destruct (B.is_nil _); [cbn; repeat split; intros; discriminate|].
+  cbn [A.benv B.e_valid].
+  destruct (F.idp_validates (A.fkind k) (A.an_validate an)); cbn; repeat split; intros; try discriminate; reflexivity.
+Qed.
+
+Lemma code_unavail pe : B.code_for_error pe = 429%N \/ B.code_for_error pe = 503%N -> pe = B.ERateLimit \/ pe = B.EUnavailable.
+Proof. destruct pe; cbn; intros [H|H]; try discriminate; auto. Qed.
+
+Lemma refresh_facts d q o an now slug k :
+  AP.routed d q slug k B.p_refresh ->
+  let r := A.serve lower d q o an now in
+  (A.r_status r = 201%N -> exists tok dur, F.refresh_access_token (A.fkind k) (A.an_refresh an) = inr (tok, dur)) /\
+  (A.r_status r = 429%N \/ A.r_status r = 503%N ->
+     exists e, F.refresh_access_token (A.fkind k) (A.an_refresh an) = inl e /\ (e = F.ERateLimited \/ e = F.EUnavailable)).
+Proof.
+  intros Hr. cbv zeta.
+  destruct (back_resp_cases lower d q o an now slug k B.HRefresh Hr) as [rs [Hs Hc]].
+  rewrite Hs, AP.of_back_status.
+  destruct Hc as [->|[->|[->|[_ ->]]]]; cbn [B.err_resp B.rs_status];
+    try (split; [intros; discriminate | intros [H|H]; discriminate]).
+  cbn [B.run_handler]. unfold B.refresh. cbn [B.parse_form].
+  destruct (B.is_nil _); [cbn; split; [intros; discriminate | intros [H|H]; discriminate]|].
+  cbn [A.benv B.e_refresh].
+  destruct (F.refresh_access_token (A.fkind k) (A.an_refresh an)) as [e|[tok dur]]; cbn [B.ran B.rs_status].
+  - split; [destruct e; cbn; intros; discriminate|]. intros H. exists e. split; [reflexivity|].
+    apply code_unavail in H. destruct e; cbn in H; destruct H as [H|H]; try discriminate; auto.
+  - split; [eauto|]. intros [H|H]; discriminate.
+Qed.
+
+Lemma profile_facts d q o an now slug k :
+  AP.routed d q slug k B.p_profile ->
+  let r := A.serve lower d q o an now in
+  (A.r_status r = 429%N \/ A.r_status r = 503%N ->
+     A.an_groups an = B.GrpErr B.ERateLimit \/ A.an_groups an = B.GrpErr B.EUnavailable).
+Proof.
+  intros Hr. cbv zeta.
+  destruct (back_resp_cases lower d q o an now slug k B.HProfile Hr) as [rs [Hs Hc]].
+  rewrite Hs, AP.of_back_status.
+  destruct Hc as [->|[->|[->|[_ ->]]]]; cbn [B.err_resp B.rs_status]; try (intros [H|H]; discriminate).
+  cbn [B.run_handler]. unfold B.get_profile.
+  destruct (B.is_nil _); [cbn; intros [H|H]; discriminate|].
+  cbn [A.benv B.e_groups].
+  destruct (A.an_groups an) as [gs|pe]; cbn [B.ran B.rs_status]; [intros [H|H]; discriminate|].
+  intros H. apply code_unavail in H. destruct H as [->| ->]; auto.
+Qed.
+
+End BackStatus.
+
+Section Wired.
+Variable re_match : str -> str -> bool.
+Variable lower : str -> str.
+Variable sd : sysdep.
+
+Definition leaves : list str := [B.p_redeem; B.p_refresh; B.p_validate; B.p_profile].
+
+(* the authenticator routes <provider>/<slug>/<leaf> to the provider registered under exactly that slug *)
+Definition wired_slug (slug : str) : Prop :=
+  exists k, forall leaf, In leaf leaves ->
+    A.find_slug (A.c_slash :: slug ++ leaf) (A.d_slugs (sd_a sd)) = Some (slug, k, leaf) /\
+    ReqUri.clean_path (A.c_slash :: slug ++ leaf) = A.c_slash :: slug ++ leaf.
+
+(* the proxy addresses the authenticator by its configured host, under provider slugs it serves *)
+Definition wired : Prop :=
+  sd_bc_host sd = A.d_host (sd_a sd) /\ forall q, wired_slug (proxy_slug re_match sd q).
+
+Lemma bc_routed slug leaf m qy body ct hs k :
+  sd_bc_host sd = A.d_host (sd_a sd) -> In leaf leaves ->
+  A.find_slug (A.c_slash :: slug ++ leaf) (A.d_slugs (sd_a sd)) = Some (slug, k, leaf) ->
+  ReqUri.clean_path (A.c_slash :: slug ++ leaf) = A.c_slash :: slug ++ leaf ->
+  AP.routed (sd_a sd) (bc_request sd slug leaf m qy body ct hs) slug k leaf.
+Proof.
+  intros Hh Hl Hf Hc. unfold AP.routed, bc_request. cbn [A.q_path A.q_host].
+  split; [|auto].
+  intros E. apply (f_equal (@length N)) in E.
+  change (length (A.c_slash :: slug ++ leaf)) with (S (length (slug ++ leaf))) in E. rewrite app_length in E.
+  assert (Hl7 : (7 <= length leaf)%nat).
+  { destruct Hl as [<-|[<-|[<-|[<-|[]]]]]; vm_compute; lia. }
+  assert (H5 : length A.p_ping = 5%nat) by reflexivity. rewrite H5 in E. lia.
+Qed.
+
+Lemma wired_kind q k :
+  (forall leaf, In leaf leaves ->
+     A.find_slug (A.c_slash :: proxy_slug re_match sd q ++ leaf) (A.d_slugs (sd_a sd)) = Some (proxy_slug re_match sd q, k, leaf) /\
+     ReqUri.clean_path (A.c_slash :: proxy_slug re_match sd q ++ leaf) = A.c_slash :: proxy_slug re_match sd q ++ leaf) ->
+  proxy_kind re_match sd q = k.
+Proof.
+  intros H. unfold proxy_kind. destruct (H B.p_validate) as [Hf _]; [unfold leaves; cbn; tauto|]. rewrite Hf. reflexivity.
+Qed.
+
+Lemma revoked_refresh_is k : F.refresh_access_token (A.fkind k) (revoked_refresh k) = inl F.ETokenRevoked.
+Proof. destruct k; vm_compute; reflexivity. Qed.
+Lemma revoked_validate_is k : F.idp_validates (A.fkind k) (revoked_validate k) = false.
+Proof. destruct k; reflexivity. Qed.
+
+Lemma eff_validate_false i k g ga sc :
+  i_down i = true \/ is_revoked i g = true -> F.idp_validates (A.fkind k) (A.an_validate (eff_answers i k g ga sc)) = false.
+Proof.
+  intros H. unfold eff_answers. destruct (i_down i); [destruct k; reflexivity|].
+  destruct H as [H|H]; [discriminate|]. cbn [A.an_validate]. rewrite H. apply revoked_validate_is.
+Qed.
+
+Lemma eff_refresh_err i k g ga sc :
+  i_down i = true \/ is_revoked i g = true ->
+  exists e, F.refresh_access_token (A.fkind k) (A.an_refresh (eff_answers i k g ga sc)) = inl e /\
+            (i_down i = false -> e = F.ETokenRevoked).
+Proof.
+  intros H. unfold eff_answers. destruct (i_down i) eqn:Ed.
+  - exists F.EUnavailable. split; [destruct k; reflexivity | discriminate].
+  - destruct H as [H|H]; [discriminate|]. cbn [A.an_refresh]. rewrite H. exists F.ETokenRevoked.
+    split; [apply revoked_refresh_is | reflexivity].
+Qed.
+
+(* while the IdP is down or the grant of the presented credential is revoked, the authenticator confirms nothing *)
+Lemma no_confirmation st q bk lk sc :
+  wired ->
+  i_down (st_idp st) = true \/ is_revoked (st_idp st) (proxy_grant re_match sd st q) = true ->
+  let a := P.an_auth (bc_answers lk (bc_run re_match lower sd st q lk sc) bk) in
+  PC.a_validate a <> PC.St 200 /\ (forall tok dur, PC.redeem_refresh a <> PC.RrOk tok dur).
+Proof.
+  intros [Hh Hw] Hrev. cbv zeta. destruct (Hw q) as [k Hk]. pose proof (wired_kind q k Hk) as Hkind.
+  cbn [P.an_auth bc_answers PC.a_validate]. split.
+  - intros E. unfold http_of in E. destruct lk; [|discriminate|discriminate]. inversion E as [Hst].
+    cbn [bc_validate bc_run] in Hst. unfold bc_serve in Hst.
+    destruct (Hk B.p_validate) as [Hf Hc]; [unfold leaves; cbn; tauto|].
+    match type of Hst with Z.of_N (A.r_status (A.serve _ _ ?rq0 _ ?an0 _)) = _ => set (rq := rq0) in *; set (an := an0) in * end.
+    assert (Hrt : AP.routed (sd_a sd) rq (proxy_slug re_match sd q) k B.p_validate).
+    { unfold rq, rq_validate. apply bc_routed; auto. unfold leaves; cbn; tauto. }
+    destruct (validate_facts lower (sd_a sd) rq (a_oracles sd st no_aux) an (now_ns st) _ k Hrt) as [H200 _].
+    cbv zeta in H200. assert (Hs : A.r_status (A.serve lower (sd_a sd) rq (a_oracles sd st no_aux) an (now_ns st)) = 200%N) by lia.
+    apply H200 in Hs. unfold an in Hs. rewrite Hkind in Hs. rewrite eff_validate_false in Hs by exact Hrev. discriminate.
+  - intros tok dur E. unfold PC.redeem_refresh in E. cbn [PC.a_refresh PC.a_refresh_body] in E.
+    unfold http_of in E. destruct lk; [|discriminate|discriminate].
+    destruct (Z.of_N _ =? 201) eqn:E201; [|destruct (PC.unavailable _); [discriminate|]; destruct (_ =? 401); discriminate].
+    apply Z.eqb_eq in E201.
+    destruct (Hk B.p_refresh) as [Hf Hc]; [unfold leaves; cbn; tauto|].
+    cbn [bc_refresh bc_run] in E201. unfold bc_serve in E201.
+    match type of E201 with Z.of_N (A.r_status (A.serve _ _ ?rq0 _ ?an0 _)) = _ => set (rq := rq0) in *; set (an := an0) in * end.
+    assert (Hrt : AP.routed (sd_a sd) rq (proxy_slug re_match sd q) k B.p_refresh).
+    { unfold rq, rq_refresh. apply bc_routed; auto. unfold leaves; cbn; tauto. }
+    destruct (refresh_facts lower (sd_a sd) rq (a_oracles sd st no_aux) an (now_ns st) _ k Hrt) as [H201 _].
+    cbv zeta in H201. destruct H201 as [t0 [d0 Hok]]; [lia|].
+    unfold an in Hok. rewrite Hkind in Hok.
+    destruct (eff_refresh_err (st_idp st) k (proxy_grant re_match sd st q) None sc Hrev) as [e [He _]].
+    rewrite He in Hok. discriminate.
+Qed.
+
+End Wired.
+
+(* ================================================================================================ *)
+(* Part 7 — revocation *)
+
+Section Revocation.
+Variable re_match : str -> str -> bool.
+Variable re_replace : str -> str -> str -> str.
+Variable lower : str -> str.
+Variable sd : sysdep.
+Hypothesis Hwf : wf sd.
+Hypothesis Hwired : wired re_match sd.
+
+Notation INV := (Inv re_match lower sd).
+Notation step := (SystemAll.step re_match re_replace lower sd).
+Notation run := (SystemAll.run re_match re_replace lower sd).
+Notation pstep := (proxy_step re_match re_replace lower sd).
+
+Definition revoked_at (st : state) (g : nat) (t : Z) : Prop := In (g, t) (i_rev (st_idp st)).
+
+Lemma revoked_at_is st g t : revoked_at st g t -> is_revoked (st_idp st) (Some g) = true.
+Proof.
+  unfold revoked_at, is_revoked. intros H. apply existsb_exists. exists (g, t). split; [exact H|]. cbn. apply Nat.eqb_refl.
+Qed.
+
+(* a copy whose validity deadline was set after its grant was revoked is a fresh login (a code redeemed
+   after the revocation) or an outage-grace extension — never a confirmation *)
+Definition Rev (st : state) : Prop :=
+  forall p g t, In p (st_p st) -> pr_grant p = Some g -> revoked_at st g t -> t < pr_conf p ->
+    pr_conf p = pr_login p \/ pr_real p = false.
+
+Lemma rev_init t0 : Rev (init t0).
+Proof. intros p g t []. Qed.
+
+Lemma rev_proxy_step st q bk lk sc : INV st -> Rev st -> Rev (fst (pstep st q bk lk sc)).
+Proof.
+  intros HI HR p g t Hin Hg Hrv Ht.
+  unfold proxy_step in Hin, Hrv. cbn [fst st_p st_idp] in Hin, Hrv. unfold revoked_at in Hrv. cbn [st_idp] in Hrv.
+  set (oc := proxy_outcome re_match re_replace lower sd st q bk lk sc) in *.
+  destruct (new_prec re_match sd st q oc) as [r|] eqn:En; [|exact (HR p g t Hin Hg Hrv Ht)].
+  apply in_app_or in Hin as [Hin|[<-|[]]]; [exact (HR p g t Hin Hg Hrv Ht)|].
+  unfold new_prec in En.
+  destruct (P.oc_session oc) as [| |s'] eqn:Es; try discriminate.
+  destruct (P.oc_upstream oc) as [u|] eqn:Eu; [|discriminate].
+  destruct (is_callback q) eqn:Ecb.
+  { inversion En; subst r. left. reflexivity. }
+  destruct (presented_p sd st q) as [p0|] eqn:Ep0; [|discriminate].
+  inversion En; subst r. clear En. cbn [pr_conf pr_login pr_real pr_grant] in *.
+  unfold oc, proxy_outcome in Es.
+  destruct (serve_saved_cases re_match re_replace lower _ _ _ _ _ _ Es) as [u0 [Hr [Hu Hc]]].
+  destruct Hc as [[Hrt _]|[Hrt [ep Hh]]].
+  { exfalso. apply is_callback_iff in Hrt. congruence. }
+  apply handle_saved_auth in Hh as Ha. cbn [PC.r_host PC.r_cookie P.pc_request] in Ha.
+  destruct (P.session_cookie (p_opens st) (sd_p sd) q) as [| |s] eqn:Eck; [cbn in Ha; discriminate | cbn in Ha; discriminate |].
+  destruct (session_cookie_presented sd st q s Eck) as [r0 [Hp [Hs0 Hin0]]].
+  rewrite Ep0 in Hp. inversion Hp; subst r0. rewrite Hs0 in *.
+  destruct (PC.s_valid_dl s' =? PC.s_valid_dl s) eqn:Esame.
+  { exact (HR p0 g t Hin0 Hg Hrv Ht). }
+  apply Z.eqb_neq in Esame.
+  destruct (PC.s_grace s') as [g0|] eqn:Eg; [right; reflexivity|]. exfalso.
+  (* a real confirmation while the grant is revoked *)
+  assert (Hgr : proxy_grant re_match sd st q = Some g).
+  { unfold proxy_grant. rewrite Ecb, Ep0. exact Hg. }
+  assert (Hrev : is_revoked (st_idp st) (proxy_grant re_match sd st q) = true).
+  { rewrite Hgr. eapply revoked_at_is. exact Hrv. }
+  destruct (no_confirmation re_match lower sd st q bk lk sc Hwired (or_intror Hrev)) as [Hnv Hnr].
+  cbv zeta in Hnv, Hnr.
+  revert Ha. unfold PC.authenticate, PC.expired.
+  destruct (negb (str_eqb (PC.s_slug s) _)); [discriminate|].
+  destruct (negb (str_eqb (P.rq_host q) (PC.s_upstream s))); [discriminate|].
+  destruct (PC.s_lifetime_dl s <? st_now st); [discriminate|].
+  destruct (PC.s_refresh_dl s <? st_now st) eqn:Er.
+  - destruct (PC.refresh_session _ _ _ s _) as [[rr s1] calls] eqn:Erf.
+    pose proof (PCP.refresh_preserves _ _ _ _ _ _ _ _ Erf) as [_ [_ [_ [_ [Hv _]]]]].
+    destruct rr; try discriminate. destruct (request_gate _ _ _); [|discriminate].
+    cbn. intros H; inversion H; subst. contradiction.
+  - destruct (PC.s_valid_dl s <? st_now st) eqn:Ev.
+    + destruct (PC.validate_session _ _ _ s _) as [[ok s1] calls] eqn:Evs.
+      destruct ok; [|discriminate]. destruct (request_gate _ _ _); [|discriminate].
+      cbn. intros H; inversion H; subst.
+      destruct (PCP.grace_stamp_validate _ _ _ _ _ _ _ Evs) as [[[Hc200 _] _]|[_ [Hgs _]]].
+      * exact (Hnv Hc200).
+      * rewrite Eg in Hgs. discriminate.
+    + destruct (request_gate _ _ _); discriminate.
+Qed.
+
+
+Lemma rev_grow st st' :
+  INV st -> Rev st -> st_p st' = st_p st ->
+  (forall g t, In (g, t) (i_rev (st_idp st')) -> In (g, t) (i_rev (st_idp st)) \/ t = st_now st) ->
+  Rev st'.
+Proof.
+  intros (_ & _ & _ & HP & _) HR Ep Hi p g t Hin Hg Hrv Ht. rewrite Ep in Hin.
+  destruct (Hi g t Hrv) as [Hold| ->]; [exact (HR p g t Hin Hg Hold Ht)|].
+  exfalso. rewrite Forall_forall in HP. destruct (HP p Hin) as (c & u & code & K).
+  destruct K as (_ & _ & _ & _ & _ & _ & _ & _ & _ & _ & _ & _ & _ & _ & K15 & K16 & _). lia.
+Qed.
+
+Lemma rev_step st e : INV st -> Rev st -> Rev (fst (step st e)).
+Proof.
+  intros HI HR. destruct e as [dt|c|q bk lk sc|q x sc]; cbn [SystemAll.step].
+  - cbn [fst]. apply (rev_grow st); auto.
+  - cbn [fst]. apply (rev_grow st); auto. cbn [with_idp st_idp]. intros g t.
+    destruct c; cbn [idp_step i_rev]; auto. intros [H|H]; [inversion H; auto | auto].
+  - pose proof (rev_proxy_step st q bk lk sc HI HR) as H.
+    destruct (proxy_step re_match re_replace lower sd st q bk lk sc) as [st1 o]. exact H.
+  - assert (H : Rev (fst (auth_step lower sd st q x sc))).
+    { apply (rev_grow st); auto. unfold auth_step. cbn [fst st_idp]. unfold idp_after. intros g t.
+      destruct (revoked_now _ _ _ _ _); auto. destruct (auth_grant sd st q); auto.
+      cbn [i_rev]. intros [H|H]; [inversion H; auto | auto]. }
+    destruct (auth_step lower sd st q x sc) as [st1 o]. exact H.
+Qed.
+
+Lemma run_inv_rev : forall evs st st' tr, run st evs = (st', tr) -> INV st -> Rev st ->
+  INV st' /\ Rev st' /\ forall s e o, In (s, e, o) tr -> INV s /\ Rev s /\ o = snd (step s e).
+Proof.
+  induction evs as [|e evs IH]; intros st st' tr Hr HI HR; cbn [SystemAll.run] in Hr.
+  - inversion Hr; subst. split; [exact HI|]. split; [exact HR|]. intros s e o [].
+  - destruct (step st e) as [st1 o1] eqn:E1. destruct (run st1 evs) as [st2 tr2] eqn:E2.
+    inversion Hr; subst.
+    pose proof (inv_step re_match re_replace lower sd Hwf st e HI) as HI1. rewrite E1 in HI1. cbn [fst] in HI1.
+    pose proof (rev_step st e HI HR) as HR1. rewrite E1 in HR1. cbn [fst] in HR1.
+    destruct (IH st1 st' tr2 E2 HI1 HR1) as [H1 [H2 H3]]. split; [exact H1|]. split; [exact H2|].
+    intros s e0 o [Heq|Hin].
+    + inversion Heq; subst. split; [exact HI|]. split; [exact HR|]. rewrite E1. reflexivity.
+    + apply H3. exact Hin.
+Qed.
+
+(* one served request of a revoked lineage *)
+Lemma revoked_served st q bk lk sc bv e p g t :
+  0 <= P.dp_V (sd_p sd) -> INV st -> Rev st ->
+  P.oc_backend (proxy_outcome re_match re_replace lower sd st q bk lk sc) = Some bv ->
+  In e (ReqHeaders.h_get ReqHeaders.k_xfe (P.bk_handler bv)) ->
+  presented_p sd st q = Some p -> pr_grant p = Some g -> revoked_at st g t ->
+  st_now st <= t + P.dp_V (sd_p sd) \/
+  (t < pr_login p /\ st_now st <= pr_login p + P.dp_V (sd_p sd)) \/
+  (exists t', In t' (st_out (fst (pstep st q bk lk sc))) /\ t < t' /\ t' <= st_now st /\ st_now st <= t' + P.dp_V (sd_p sd)).
+Proof.
+  intros HV HI HR Hb He Hp Hg Hrv.
+  destruct (served_identity re_match re_replace lower sd st q bk lk sc bv HI Hb) as (u & Hr & _ & _ & Hid).
+  destruct (Hid e He) as (Hsk & _ & s & Hck & Hok).
+  destruct (session_cookie_presented sd st q s Hck) as [p' [Hp' [Hps Hpin]]].
+  rewrite Hp in Hp'. inversion Hp'; subst p'. clear Hp'.
+  destruct (Z_le_gt_dec (st_now st) (t + P.dp_V (sd_p sd))) as [Hle|Hgt]; [left; exact Hle|]. right.
+  assert (Htn : t < st_now st) by lia.
+  assert (Hcb : is_callback q = false).
+  { destruct (is_callback q) eqn:E; [|reflexivity]. apply is_callback_iff in E.
+    unfold proxy_outcome in Hb.
+    destruct (PP.backend_reached_only_if re_match re_replace lower _ _ _ _ _ _ Hb)
+      as (_ & _ & _ & _ & _ & _ & _ & _ & _ & _ & _ & [Hrt|Hrt] & _); rewrite E in Hrt; discriminate. }
+  assert (Hgr : proxy_grant re_match sd st q = Some g) by (unfold proxy_grant; rewrite Hcb, Hp; exact Hg).
+  assert (Hrev : is_revoked (st_idp st) (proxy_grant re_match sd st q) = true) by (rewrite Hgr; eapply revoked_at_is; exact Hrv).
+  destruct (no_confirmation re_match lower sd st q bk lk sc Hwired (or_intror Hrev)) as [Hnv Hnr]. cbv zeta in Hnv, Hnr.
+  set (a := P.an_auth (bc_answers lk (bc_run re_match lower sd st q lk sc) bk)) in *.
+  assert (Hout : saw_unavailable a = true -> exists t', In t' (st_out (fst (pstep st q bk lk sc))) /\ t < t' /\ t' <= st_now st /\ st_now st <= t' + P.dp_V (sd_p sd)).
+  { intros Hs. exists (st_now st). unfold proxy_step. cbn [fst st_out]. fold a. rewrite Hs, orb_true_r.
+    split; [left; reflexivity | lia]. }
+  destruct Hok as (_ & _ & _ & Hrf & Hvl & _).
+  destruct (Z_lt_dec (PC.s_refresh_dl s) (st_now st)) as [Hrd|Hrd].
+  - (* refresh due *)
+    right. apply Hout. destruct (Hrf Hrd) as [_ [[tok [dur [Hc _]]]|[Ho _]]]; [exfalso; exact (Hnr _ _ Hc)|].
+    destruct Ho as [Ho|[tok [dur [Hc _]]]]; [|exfalso; exact (Hnr _ _ Hc)].
+    unfold PC.redeem_refresh in Ho. unfold saw_unavailable, unavail_ans.
+    destruct (PC.a_refresh a) as [c|]; [|discriminate].
+    destruct (c =? 201); [destruct (PC.a_refresh_body a) as [[? ?]|]; discriminate|].
+    destruct (PC.unavailable c); [reflexivity|]. destruct (c =? 401); discriminate.
+  - destruct (Z_lt_dec (PC.s_valid_dl s) (st_now st)) as [Hvd|Hvd].
+    + (* revalidation due *)
+      right. apply Hout. destruct (Hvl ltac:(lia) Hvd) as [[Hc _]|[Ho _]]; [exfalso; exact (Hnv Hc)|].
+      destruct Ho as [[code [Ha Hu]]|[Hc _]]; [|exfalso; exact (Hnv Hc)].
+      unfold saw_unavailable, unavail_ans. rewrite Ha, Hu. rewrite orb_true_r. reflexivity.
+    + (* nothing due: the deadline was set at most V ago *)
+      destruct HI as (_ & _ & _ & HP & _). rewrite Forall_forall in HP.
+      destruct (HP p Hpin) as (c & u0 & code & K).
+      destruct K as (_ & _ & _ & _ & _ & _ & _ & _ & _ & _ & _ & _ & _ & K14 & K15 & K16 & K17 & K18).
+      rewrite Hps in K17.
+      destruct (Z_le_gt_dec (pr_conf p) t) as [Hct|Hct]; [lia|].
+      destruct (HR p g t Hpin Hg Hrv ltac:(lia)) as [Hcl|Hreal].
+      * left. lia.
+      * right. exists (pr_conf p). split; [|lia].
+        pose proof (proxy_step_extends re_match re_replace lower sd st q bk lk sc) as (_ & _ & _ & _ & Eo). apply Eo, K18, Hreal.
+Qed.
+
+
+(* ---- revocations persist; how a grant gets revoked ---- *)
+Lemma revoked_step st e g t : revoked_at st g t -> revoked_at (fst (step st e)) g t.
+Proof.
+  unfold revoked_at. destruct e as [dt|c|q bk lk sc|q x sc]; cbn [SystemAll.step]; intros H.
+  - exact H.
+  - cbn [fst with_idp st_idp]. destruct c; cbn [idp_step i_rev]; auto. right. exact H.
+  - unfold proxy_step. destruct (proxy_step re_match re_replace lower sd st q bk lk sc) eqn:E. unfold proxy_step in E.
+    inversion E; subst. cbn [fst st_idp]. exact H.
+  - destruct (auth_step lower sd st q x sc) eqn:E. unfold auth_step in E. inversion E; subst. cbn [fst st_idp].
+    unfold idp_after. destruct (revoked_now _ _ _ _ _); [|exact H]. destruct (auth_grant sd st q); [|exact H].
+    cbn [i_rev]. right. exact H.
+Qed.
+
+Lemma run_revoked : forall evs st st' tr g t, run st evs = (st', tr) -> revoked_at st g t ->
+  revoked_at st' g t /\ forall s e o, In (s, e, o) tr -> revoked_at s g t.
+Proof.
+  induction evs as [|e evs IH]; intros st st' tr g t Hr Hv; cbn [SystemAll.run] in Hr.
+  - inversion Hr; subst. split; [exact Hv|]. intros s e o [].
+  - destruct (step st e) as [st1 o1] eqn:E1. destruct (run st1 evs) as [st2 tr2] eqn:E2. inversion Hr; subst.
+    pose proof (revoked_step st e g t Hv) as Hv1. rewrite E1 in Hv1. cbn [fst] in Hv1.
+    destruct (IH st1 st' tr2 g t E2 Hv1) as [H1 H2]. split; [exact H1|].
+    intros s e0 o [Heq|Hin]; [inversion Heq; subst; exact Hv | exact (H2 s e0 o Hin)].
+Qed.
+
+(* the operator revokes a grant at the IdP *)
+Lemma idp_revoke_revokes st g : revoked_at (fst (step st (EvIdp (IRevoke g)))) g (st_now st).
+Proof. unfold revoked_at. cbn. left. reflexivity. Qed.
+
+(* C19 composed: a sign-out that cleared the cookie after the IdP confirmed the revocation of the session's
+   token revokes the grant of the presented authenticator session, at that instant *)
+Lemma signout_revokes st q x sc a g tok :
+  let r := auth_resp lower sd st q x sc in
+  AP.has_clear (A.r_sess_ops r) -> In (A.CRevoke tok) (A.r_calls r) ->
+  auth_pres sd st q = Some a -> ar_grant a = Some g ->
+  revoked_at (fst (auth_step lower sd st q x sc)) g (st_now st).
+Proof.
+  cbv zeta. intros Hcl Hcall Hp Hg. unfold auth_resp in *.
+  destruct (AP.signout_end_to_end lower (sd_a sd) q (a_oracles sd st no_aux) (auth_answers sd st q sc) (now_ns st)) as [_ _].
+  set (o := a_oracles sd st x) in *. set (an := auth_answers sd st q sc) in *.
+  destruct (AP.signout_end_to_end lower (sd_a sd) q o an (now_ns st)) as [H1 H2]. cbv zeta in H1, H2.
+  destruct (H1 tok Hcall) as [slug [k Hr]].
+  destruct (H2 slug k Hr) as [Hc _]. destruct (Hc Hcl) as (_ & _ & _ & _ & [[_ Hn]|[s [_ [Hcalls Hok]]]]).
+  { rewrite Hn in Hcall. destruct Hcall. }
+  assert (Hk : auth_kind sd st q = k) by (unfold auth_kind; rewrite (routed_presented sd st q slug k _ Hr); reflexivity).
+  unfold revoked_at, auth_step. cbn [fst st_idp]. unfold idp_after, revoked_now, auth_resp. fold o an.
+  rewrite Hcalls. cbn [revoke_called existsb orb andb]. rewrite Hk. fold an. rewrite Hok.
+  unfold auth_grant. rewrite Hp, Hg. cbn [i_rev]. left. reflexivity.
+Qed.
+
+End Revocation.
+
+(* ================================================================================================ *)
+(* Part 8 — the theorems over all histories *)
+
+Section Final.
+Variable re_match : str -> str -> bool.
+Variable re_replace : str -> str -> str -> str.
+Variable lower : str -> str.
+Variable sd : sysdep.
+
+Notation INV := (Inv re_match lower sd).
+Notation step := (SystemAll.step re_match re_replace lower sd).
+Notation run := (SystemAll.run re_match re_replace lower sd).
+Notation pstep := (proxy_step re_match re_replace lower sd).
+
+(* what a trace entry of a proxy request is *)
+Lemma trace_proxy st q bk lk sc o :
+  OProxy o = snd (step st (EvProxy q bk lk sc)) ->
+  po_out o = proxy_outcome re_match re_replace lower sd st q bk lk sc.
+Proof.
+  cbn [SystemAll.step]. unfold proxy_step. intros H. inversion H. reflexivity.
+Qed.
+
+Theorem identity_vouched t0 evs st' tr :
+  wf sd -> run (init t0) evs = (st', tr) ->
+  forall st q bk lk sc o bv, In (st, EvProxy q bk lk sc, OProxy o) tr -> P.oc_backend (po_out o) = Some bv ->
+  exists u, P.route_ext re_match (P.dp_ups (sd_p sd)) (P.rq_host q) = Some u /\
+    P.bk_target bv = Hostmux.target re_replace (P.rq_host q) (P.up_hm u) /\
+    (P.skip_hit re_match u q = true -> PP.identity_absent (P.bk_handler bv)) /\
+    (forall e, In e (ReqHeaders.h_get ReqHeaders.k_xfe (P.bk_handler bv)) ->
+       P.skip_hit re_match u q = false /\ identity_chain lower sd st q u e).
+Proof.
+  intros Hwf Hrun st q bk lk sc o bv Hin Hb.
+  destruct (run_inv re_match re_replace lower sd Hwf evs (init t0) st' tr Hrun (inv_init re_match lower sd t0)) as [_ Htr].
+  destruct (Htr _ _ _ Hin) as [HI Ho]. rewrite (trace_proxy _ _ _ _ _ _ Ho) in Hb.
+  destruct (served_identity re_match re_replace lower sd st q bk lk sc bv HI Hb) as (u & Hr & Ht & Hsk & Hid).
+  exists u. split; [exact Hr|]. split; [exact Ht|]. split; [exact Hsk|].
+  intros e He. destruct (Hid e He) as (H1 & H2 & _). auto.
+Qed.
+
+(* a proxy session yields identity headers only on the Host of the login it descends from, at that
+   upstream's backend *)
+Theorem session_host_bound t0 evs st' tr :
+  wf sd -> run (init t0) evs = (st', tr) ->
+  forall st q bk lk sc o bv p, In (st, EvProxy q bk lk sc, OProxy o) tr -> P.oc_backend (po_out o) = Some bv ->
+  ReqHeaders.h_get ReqHeaders.k_xfe (P.bk_handler bv) <> [] -> presented_p sd st q = Some p ->
+  P.rq_host q = pr_host p /\
+  exists u, P.route_ext re_match (P.dp_ups (sd_p sd)) (pr_host p) = Some u /\
+            P.bk_target bv = Hostmux.target re_replace (pr_host p) (P.up_hm u) /\
+            (exists ans, login_gate lower (Hostmux.u_policy (P.up_hm u)) (PC.s_email (pr_s p)) ans = true).
+Proof.
+  intros Hwf Hrun st q bk lk sc o bv p Hin Hb Hne Hp.
+  destruct (identity_vouched t0 evs st' tr Hwf Hrun st q bk lk sc o bv Hin Hb) as (u & Hr & Ht & _ & Hid).
+  destruct (ReqHeaders.h_get ReqHeaders.k_xfe (P.bk_handler bv)) as [|e l] eqn:E; [contradiction|].
+  destruct (Hid e (or_introl eq_refl)) as [_ (p' & c & g & v & K1 & _ & K3 & K4 & _ & _ & K7 & _)].
+  rewrite Hp in K1. inversion K1; subst p'. split; [symmetry; exact K4|].
+  exists u. rewrite K4. rewrite K3. auto.
+Qed.
+
+Theorem revocation_propagates t0 evs1 s1 tr1 evs2 s2 tr2 g t :
+  wf sd -> wired re_match sd -> 0 <= P.dp_V (sd_p sd) ->
+  run (init t0) evs1 = (s1, tr1) -> revoked_at s1 g t -> run s1 evs2 = (s2, tr2) ->
+  forall st q bk lk sc o bv e p,
+    In (st, EvProxy q bk lk sc, OProxy o) tr2 -> P.oc_backend (po_out o) = Some bv ->
+    In e (ReqHeaders.h_get ReqHeaders.k_xfe (P.bk_handler bv)) ->
+    presented_p sd st q = Some p -> pr_grant p = Some g ->
+    st_now st <= t + P.dp_V (sd_p sd) \/
+    (t < pr_login p /\ st_now st <= pr_login p + P.dp_V (sd_p sd)) \/
+    (exists t', In t' (st_out (fst (pstep st q bk lk sc))) /\ t < t' /\ t' <= st_now st /\ st_now st <= t' + P.dp_V (sd_p sd)).
+Proof.
+  intros Hwf Hw HV Hr1 Hrv Hr2 st q bk lk sc o bv e p Hin Hb He Hp Hg.
+  destruct (run_inv_rev re_match re_replace lower sd Hwf Hw evs1 (init t0) s1 tr1 Hr1 (inv_init re_match lower sd t0) (rev_init t0))
+    as [HI1 [HR1 _]].
+  destruct (run_inv_rev re_match re_replace lower sd Hwf Hw evs2 s1 s2 tr2 Hr2 HI1 HR1) as [_ [_ Htr]].
+  destruct (Htr _ _ _ Hin) as [HI [HR Ho]]. rewrite (trace_proxy _ _ _ _ _ _ Ho) in Hb.
+  destruct (run_revoked re_match re_replace lower sd evs2 s1 s2 tr2 g t Hr2 Hrv) as [_ Hrt].
+  eapply revoked_served; eauto.
+Qed.
+
+
+Lemma run_app : forall l1 l2 st,
+  run st (l1 ++ l2) = let '(s1, t1) := run st l1 in let '(s2, t2) := run s1 l2 in (s2, t1 ++ t2).
+Proof.
+  induction l1 as [|e l1 IH]; intros l2 st; cbn [app SystemAll.run].
+  - destruct (run st l2). reflexivity.
+  - destruct (step st e) as [st1 o]. rewrite IH. destruct (run st1 l1) as [s1 t1]. destruct (run s1 l2) as [s2 t2]. reflexivity.
+Qed.
+
+Theorem signout_propagates t0 evs1 s1 tr1 q0 x0 sc0 a g tok evs2 s2 tr2 :
+  wf sd -> wired re_match sd -> 0 <= P.dp_V (sd_p sd) ->
+  run (init t0) evs1 = (s1, tr1) ->
+  AP.has_clear (A.r_sess_ops (auth_resp lower sd s1 q0 x0 sc0)) ->
+  In (A.CRevoke tok) (A.r_calls (auth_resp lower sd s1 q0 x0 sc0)) ->
+  auth_pres sd s1 q0 = Some a -> ar_grant a = Some g ->
+  run (fst (step s1 (EvAuth q0 x0 sc0))) evs2 = (s2, tr2) ->
+  forall st q bk lk sc o bv e p,
+    In (st, EvProxy q bk lk sc, OProxy o) tr2 -> P.oc_backend (po_out o) = Some bv ->
+    In e (ReqHeaders.h_get ReqHeaders.k_xfe (P.bk_handler bv)) ->
+    presented_p sd st q = Some p -> pr_grant p = Some g ->
+    st_now st <= st_now s1 + P.dp_V (sd_p sd) \/
+    (st_now s1 < pr_login p /\ st_now st <= pr_login p + P.dp_V (sd_p sd)) \/
+    (exists t', In t' (st_out (fst (pstep st q bk lk sc))) /\ st_now s1 < t' /\ t' <= st_now st /\ st_now st <= t' + P.dp_V (sd_p sd)).
+Proof.
+  intros Hwf Hw HV Hr1 Hcl Hcall Hp Hg Hr2.
+  pose proof (signout_revokes lower sd s1 q0 x0 sc0 a g tok Hcl Hcall Hp Hg) as Hrv.
+  assert (Hr1' : run (init t0) (evs1 ++ [EvAuth q0 x0 sc0]) =
+                 (fst (step s1 (EvAuth q0 x0 sc0)), tr1 ++ [(s1, EvAuth q0 x0 sc0, snd (step s1 (EvAuth q0 x0 sc0)))])).
+  { rewrite run_app, Hr1. cbn [SystemAll.run]. destruct (step s1 (EvAuth q0 x0 sc0)). reflexivity. }
+  eapply (revocation_propagates t0 _ _ _ evs2 s2 tr2 g (st_now s1) Hwf Hw HV Hr1'); [|exact Hr2].
+  cbn [SystemAll.step]. destruct (auth_step lower sd s1 q0 x0 sc0) eqn:E. cbn [fst] in *. exact Hrv.
+Qed.
+
+End Final.
+
+(* ================================================================================================ *)
+(* Part 9 — a concrete deployment: non-vacuity, and the witnesses of the two refuted clauses *)
+
+Module SysEx.
+
+Definition ad : A.deployment :=
+  {| A.d_host := bs "sso.ex.com"; A.d_slugs := [(bs "o", A.AOkta)]; A.d_pre := true; A.d_proxy_domains := [bs "ex.com"];
+     A.d_client_id := bs "i"; A.d_client_secret := bs "s"; A.d_scheme := bs "https"; A.d_addresses := [];
+     A.d_email_domains := [bs "ex.com"]; A.d_lifetime := 3600; A.d_code_key := 2%N; A.d_cookie_key := 1%N |}.
+Definition up (host target : str) : P.iupstream :=
+  {| P.up_hm := {| Hostmux.u_route := Hostmux.Simple host target;
+                   Hostmux.u_policy := {| p_addresses := []; p_domains := [bs "ex.com"]; p_groups := [] |};
+                   Hostmux.u_slug := []; Hostmux.u_skip := []; Hostmux.u_preserve := false |};
+     P.up_overrides := []; P.up_inject := []; P.up_replace := true; P.up_hmac := None; P.up_skip_sign := true |}.
+Definition h_app : str := bs "app.ex.com".
+Definition h_app2 : str := bs "app2.ex.com".
+Definition pd : P.deployment :=
+  {| P.dp_ups := [up h_app (bs "127.0.0.1:9001"); up h_app2 (bs "127.0.0.1:9002")]; P.dp_slug := bs "o";
+     P.dp_L := 3000; P.dp_V := 60; P.dp_G := 300; P.dp_secure := false;
+     P.dp_httponly := true; P.dp_cookie_name := bs "_sso_proxy"; P.dp_cookie_domain := []; P.dp_signer := None;
+     P.dp_auth_base := bs "http://sso.ex.com" |}.
+Definition sd : sysdep := {| sd_p := pd; sd_a := ad; sd_pid := bs "i"; sd_psecret := bs "s"; sd_bc_host := bs "sso.ex.com" |}.
+
+Definition ex_match (p s : str) : bool := false.
+Definition ex_replace (p s t : str) : str := t.
+
+Definition preq (host path : str) (client : list (str * str)) : P.request :=
+  {| P.rq_host := host; P.rq_method := bs "GET"; P.rq_path := path; P.rq_rawquery := []; P.rq_client := client;
+     P.rq_body := []; P.rq_chunked := false; P.rq_ip := bs "10.0.0.1"; P.cb_form_ok := true; P.cb_error := []; P.cb_code := [];
+     P.cb_state := Callback.WJunk 0; P.cb_csrf := None |}.
+Definition flow : Callback.flow := {| Callback.f_sid := 7%N; Callback.f_redirect := bs "/x" |}.
+Definition pcb (host code : str) : P.request :=
+  {| P.rq_host := host; P.rq_method := bs "GET"; P.rq_path := bs "/oauth2/callback"; P.rq_rawquery := []; P.rq_client := [];
+     P.rq_body := []; P.rq_chunked := false; P.rq_ip := bs "10.0.0.1"; P.cb_form_ok := true; P.cb_error := []; P.cb_code := code;
+     P.cb_state := Callback.WEnc 0 (Callback.Seal 1 2 (Callback.PFlow flow));
+     P.cb_csrf := Some (Callback.WEnc 0 (Callback.Seal 1 1 (Callback.PFlow flow))) |}.
+Definition bk : RespHeaders.upstream :=
+  {| RespHeaders.u_n1xx := 0%nat; RespHeaders.u_status := 200%N; RespHeaders.u_lines := []; RespHeaders.u_announced := []; RespHeaders.u_trailers := [] |}.
+
+(* the IdP's script: vouches for bob@ex.com, validates, revokes on request *)
+Definition sc : A.answers :=
+  {| A.an_refresh := F.RReset; A.an_validate := F.VStatus 200 true true;
+     A.an_tok := T.Resp 200 (T.Json {| T.f_access := T.JStr (bs "at1"); T.f_refresh := T.JStr (bs "rt1"); T.f_expires := T.JNum 600; T.f_idtoken := T.JMissing |});
+     A.an_ui := T.Resp 200 (T.Json {| T.f_email := T.JStr (bs "bob@ex.com"); T.f_verified := T.JBool true; T.f_groups := T.JMissing; T.f_username := T.JMissing |});
+     A.an_payload := fun _ => T.NotJSON; A.an_revoke := S.IdpSt 200 S.BNotJSON; A.an_groups := B.GrpOk []; A.an_nonce := bs "n";
+     A.an_static := 404%N |}.
+
+Definition areq (path q : str) (sess csrf : list (str * str)) : A.request :=
+  {| A.q_host := bs "sso.ex.com"; A.q_path := path; A.q_method := bs "GET"; A.q_query := q; A.q_ctype := no_ctype; A.q_body := [];
+     A.q_headers := []; A.q_sess := sess; A.q_csrf := csrf |}.
+Definition back_uri : str := bs "https://sso.ex.com/o/sign_in".
+(* the browser returns from the IdP *)
+Definition q_cb : A.request :=
+  areq (bs "/o/callback") (bs "code=IDP1&state=" ++ qesc (S.b64_encode (bs "n" ++ 58%N :: back_uri))) [] [(bs "o", bs "n")].
+(* /sign_in with the parameters of the proxy's k-th signed redirect *)
+Definition q_si (k : nat) (t : Z) (host ck : str) : A.request :=
+  areq (bs "/o/sign_in")
+       (bs "client_id=i&redirect_uri=" ++ qesc (callback_uri sd host) ++ bs "&sig=" ++ qesc (S.b64_encode (name tag_s k)) ++
+        bs "&ts=" ++ G.dec t ++ bs "&state=x") [(bs "o", ck)] [].
+Definition q_so (k : nat) (t : Z) (host ck : str) : A.request :=
+  {| A.q_host := bs "sso.ex.com"; A.q_path := bs "/o/sign_out"; A.q_method := bs "POST"; A.q_query := []; A.q_ctype := urlenc;
+     A.q_body := bs "redirect_uri=" ++ qesc (signout_uri sd host) ++ bs "&sig=" ++ qesc (S.b64_encode (name tag_s k)) ++ bs "&ts=" ++ G.dec t;
+     A.q_headers := []; A.q_sess := [(bs "o", ck)]; A.q_csrf := [] |}.
+Definition ck (v : str) : list (str * str) := [(bs "Cookie", bs "_sso_proxy=" ++ v)].
+
+(* a full login on app.ex.com: redirect (MAC S0), IdP login (cookie A0), code C0, redeem (cookie P0) *)
+Definition login (host_mint host_redeem : str) : list event :=
+  [ EvProxy (preq host_mint (bs "/x") []) bk LinkUp sc;
+    EvAuth q_cb no_aux sc;
+    EvAuth (q_si 0 1000 host_mint (name tag_a 0)) no_aux sc;
+    EvProxy (pcb host_redeem (name tag_c 0)) bk LinkUp sc ].
+
+Definition evs_served : list event := login h_app h_app ++ [EvProxy (preq h_app (bs "/x") (ck (name tag_p 0))) bk LinkUp sc].
+Definition evs_revoked : list event :=
+  evs_served ++ [EvTick 100; EvProxy (preq h_app (bs "/x") (ck (name tag_p 0))) bk LinkUp sc;   (* revalidated: P1 *)
+                 EvIdp (IRevoke 0); EvTick 100; EvProxy (preq h_app (bs "/x") (ck (name tag_p 1))) bk LinkUp sc].
+Definition evs_signout : list event :=
+  evs_served ++ [EvProxy (preq h_app (bs "/oauth2/sign_out") (ck (name tag_p 0))) bk LinkUp sc;   (* MAC S1 *)
+                 EvAuth (q_so 1 1000 h_app (name tag_a 1)) no_aux sc;
+                 EvTick 100; EvProxy (preq h_app (bs "/x") (ck (name tag_p 0))) bk LinkUp sc].
+Definition evs_cross : list event := login h_app h_app2 ++ [EvProxy (preq h_app2 (bs "/x") (ck (name tag_p 0))) bk LinkUp sc].
+Definition evs_inflight : list event :=
+  [ EvProxy (preq h_app (bs "/x") []) bk LinkUp sc; EvAuth q_cb no_aux sc; EvAuth (q_si 0 1000 h_app (name tag_a 0)) no_aux sc;
+    EvIdp (IRevoke 0); EvTick 200;
+    EvProxy (pcb h_app (name tag_c 0)) bk LinkUp sc;
+    EvProxy (preq h_app (bs "/x") (ck (name tag_p 0))) bk LinkUp sc ].
+
+Definition runex (evs : list event) := run ex_match ex_replace lower_ascii sd (init 1000) evs.
+
+(* what the last proxy request of a history did: e-mail the backend received, status the client received *)
+Definition last_view (evs : list event) : list str * N :=
+  match rev (snd (runex evs)) with
+  | (_, _, OProxy o) :: _ =>
+      (match P.oc_backend (po_out o) with Some bv => ReqHeaders.h_get ReqHeaders.k_xfe (P.bk_handler bv) | None => [] end,
+       match P.oc_client (po_out o) with RespHeaders.Resp st _ => st | _ => 0%N end)
+  | _ => ([], 0%N)
+  end.
+
+Lemma wf_ex : wf sd.
+Proof. unfold wf. cbn. discriminate. Qed.
+
+End SysEx.
+
+
+(* ---- non-vacuity ---- *)
+Example ex_login_reaches_backend :
+  SysEx.last_view SysEx.evs_served = ([bs "bob@ex.com"], 200%N).
+Proof. vm_compute. reflexivity. Qed.
+
+Example ex_revocation_ends_it :
+  SysEx.last_view SysEx.evs_revoked = ([], 403%N) /\
+  revoked_at (fst (SysEx.runex SysEx.evs_revoked)) 0 1100.
+Proof. split; [vm_compute; reflexivity|]. unfold revoked_at. vm_compute. left. reflexivity. Qed.
+
+Example ex_signout_ends_it :
+  SysEx.last_view SysEx.evs_signout = ([], 403%N) /\
+  revoked_at (fst (SysEx.runex SysEx.evs_signout)) 0 1000.
+Proof. split; [vm_compute; reflexivity|]. unfold revoked_at. vm_compute. left. reflexivity. Qed.
+
+Example ex_wired : wired SysEx.ex_match SysEx.sd.
+Proof.
+  split; [reflexivity|]. intros q. exists A.AOkta. intros leaf Hl.
+  assert (Hs : proxy_slug SysEx.ex_match SysEx.sd q = bs "o").
+  { unfold proxy_slug, proxy_up. cbn [SysEx.sd sd_p SysEx.pd P.dp_ups].
+    destruct (P.route_ext _ _ _) as [u|] eqn:E; [|reflexivity].
+    apply (PP.route_ext_in SysEx.ex_match) in E. destruct E as [<-|[<-|[]]]; reflexivity. }
+  rewrite Hs. destruct Hl as [<-|[<-|[<-|[<-|[]]]]]; split; vm_compute; reflexivity.
+Qed.
+
+(* ---- the two clauses that are FALSE of the faithful model ---- *)
+
+(* (d, first half) "a code minted for redirect A is never redeemable into a proxy session bound to host B":
+   the authenticator's /redeem ignores redirect_uri (sso.go:108 "TODO: remove ... unused by authenticator";
+   authenticator.go:634-700 never reads it), so a code handed to app.ex.com's callback mints a session on app2.ex.com *)
+Definition code_bound_to_host : Prop :=
+  forall re_match re_replace lower sd t0 evs st' tr,
+    wf sd -> run re_match re_replace lower sd (init t0) evs = (st', tr) ->
+    forall p c, In p (st_p st') -> In c (st_c st') -> pr_code p = Some (cr_val c) ->
+      cr_uri c = callback_uri sd (pr_host p).
+
+Theorem code_bound_to_host_refuted : ~ code_bound_to_host.
+Proof.
+  intros H.
+  specialize (H SysEx.ex_match SysEx.ex_replace lower_ascii SysEx.sd 1000 SysEx.evs_cross _ _ SysEx.wf_ex
+                (surjective_pairing (SysEx.runex SysEx.evs_cross))).
+  destruct (st_p (fst (SysEx.runex SysEx.evs_cross))) as [|p l] eqn:Ep; [vm_compute in Ep; discriminate|].
+  destruct (st_c (fst (SysEx.runex SysEx.evs_cross))) as [|c l'] eqn:Ec; [vm_compute in Ec; discriminate|].
+  specialize (H p c (or_introl eq_refl) (or_introl eq_refl)).
+  vm_compute in Ep. inversion Ep; subst p. vm_compute in Ec. inversion Ec; subst c.
+  specialize (H eq_refl). vm_compute in H. discriminate.
+Qed.
+
+(* (b, at full strength) "after the grant is revoked at t no backend is reached with its descendants after
+   t + V (outage grace aside)": a code minted BEFORE the revocation stays redeemable until the refresh deadline it
+   carries (/redeem consults no one), and the session minted from it is served for V more seconds *)
+Definition revocation_strict : Prop :=
+  forall re_match re_replace lower sd t0 evs1 s1 tr1 evs2 s2 tr2 g t,
+    wf sd -> wired re_match sd -> 0 <= P.dp_V (sd_p sd) ->
+    run re_match re_replace lower sd (init t0) evs1 = (s1, tr1) -> revoked_at s1 g t ->
+    run re_match re_replace lower sd s1 evs2 = (s2, tr2) ->
+    forall st q bk lk sc o bv e p,
+      In (st, EvProxy q bk lk sc, OProxy o) tr2 -> P.oc_backend (po_out o) = Some bv ->
+      In e (ReqHeaders.h_get ReqHeaders.k_xfe (P.bk_handler bv)) ->
+      presented_p sd st q = Some p -> pr_grant p = Some g ->
+      st_now st <= t + P.dp_V (sd_p sd) \/
+      (exists t', In t' (st_out (fst (proxy_step re_match re_replace lower sd st q bk lk sc))) /\ t < t').
+
+(* a trace entry that contradicts the strict clause, as a boolean on a concrete trace *)
+Definition strict_counter (re_match : str -> str -> bool) (re_replace : str -> str -> str -> str) (lower : str -> str)
+    (sd : sysdep) (g : nat) (t : Z) (x : state * event * out) : bool :=
+  match x with
+  | (st, EvProxy q bk lk sc, OProxy o) =>
+      match P.oc_backend (po_out o), presented_p sd st q with
+      | Some bv, Some p =>
+          negb (match ReqHeaders.h_get ReqHeaders.k_xfe (P.bk_handler bv) with [] => true | _ => false end) &&
+          match pr_grant p with Some g' => Nat.eqb g' g | None => false end &&
+          (t + P.dp_V (sd_p sd) <? st_now st) &&
+          match st_out (fst (proxy_step re_match re_replace lower sd st q bk lk sc)) with [] => true | _ => false end
+      | _, _ => false
+      end
+  | _ => false
+  end.
+
+Theorem revocation_strict_refuted : ~ revocation_strict.
+Proof.
+  intros H.
+  pose (evs1 := firstn 4 SysEx.evs_inflight). pose (evs2 := skipn 4 SysEx.evs_inflight).
+  pose (r1 := run SysEx.ex_match SysEx.ex_replace lower_ascii SysEx.sd (init 1000) evs1).
+  pose (r2 := run SysEx.ex_match SysEx.ex_replace lower_ascii SysEx.sd (fst r1) evs2).
+  assert (Hrv : revoked_at (fst r1) 0 1000).
+  { unfold revoked_at. vm_compute. left. reflexivity. }
+  specialize (H SysEx.ex_match SysEx.ex_replace lower_ascii SysEx.sd 1000 evs1 (fst r1) (snd r1) evs2 (fst r2) (snd r2) 0%nat 1000
+                SysEx.wf_ex ex_wired ltac:(cbn; lia) (surjective_pairing r1) Hrv (surjective_pairing r2)).
+  assert (Hc : existsb (strict_counter SysEx.ex_match SysEx.ex_replace lower_ascii SysEx.sd 0 1000) (snd r2) = true)
+    by (vm_compute; reflexivity).
+  apply existsb_exists in Hc as [[[st e] o] [Hin Hx]]. unfold strict_counter in Hx.
+  destruct e as [| |q bk lk sc|]; try discriminate. destruct o as [| |o|]; try discriminate.
+  destruct (P.oc_backend (po_out o)) as [bv|] eqn:Eb; [|discriminate].
+  destruct (presented_p SysEx.sd st q) as [p|] eqn:Ep; [|discriminate].
+  apply andb_true_iff in Hx as [Hx H4]. apply andb_true_iff in Hx as [Hx H3]. apply andb_true_iff in Hx as [H1 H2].
+  destruct (ReqHeaders.h_get ReqHeaders.k_xfe (P.bk_handler bv)) as [|e0 l0] eqn:Ee; [discriminate|].
+  destruct (pr_grant p) as [g'|] eqn:Eg; [|discriminate]. apply Nat.eqb_eq in H2. subst g'.
+  apply Z.ltb_lt in H3.
+  specialize (H st q bk lk sc o bv e0 p Hin Eb ltac:(rewrite Ee; left; reflexivity) Ep Eg).
+  destruct H as [H|[t' [Ht' _]]]; [lia|].
+  destruct (st_out _); [destruct Ht' | discriminate].
+Qed.
+
+(* ================================================================================================ *)
+(* Part 10 — "revoked" is never mistaken for "unavailable" *)
+
+Section NoGrace.
+Variable re_match : str -> str -> bool.
+Variable re_replace : str -> str -> str -> str.
+Variable lower : str -> str.
+Variable sd : sysdep.
+Hypothesis Hwf : wf sd.
+Hypothesis Hwired : wired re_match sd.
+
+Lemma idp_groups_not_unavailable i email allowed :
+  idp_groups i email allowed <> B.GrpErr B.ERateLimit /\ idp_groups i email allowed <> B.GrpErr B.EUnavailable.
+Proof.
+  unfold idp_groups. destruct allowed; [split; discriminate|]. destruct (dir_lookup email (i_groups i)); split; discriminate.
+Qed.
+
+(* authenticator reachable, IdP up, grant revoked: no back-channel answer is 429 / 503 *)
+Lemma revoked_up_not_unavailable st q bk sc :
+  i_down (st_idp st) = false -> is_revoked (st_idp st) (proxy_grant re_match sd st q) = true ->
+  saw_unavailable (P.an_auth (bc_answers LinkUp (bc_run re_match lower sd st q LinkUp sc) bk)) = false.
+Proof.
+  intros Hup Hrev. destruct Hwired as [Hh Hw]. destruct (Hw q) as [k Hk]. pose proof (wired_kind re_match sd q k Hk) as Hkind.
+  unfold saw_unavailable, unavail_ans. cbn [P.an_auth bc_answers PC.a_refresh PC.a_validate PC.a_profile http_of].
+  cbn [bc_refresh bc_validate bc_profile bc_run]. unfold bc_serve.
+  apply orb_false_iff. split; [apply orb_false_iff; split|].
+  - (* refresh *)
+    destruct (Hk B.p_refresh) as [Hf Hc]; [unfold leaves; cbn; tauto|].
+    match goal with |- PC.unavailable (Z.of_N (A.r_status (A.serve _ _ ?rq0 _ ?an0 _))) = _ => set (rq := rq0); set (an := an0) end.
+    assert (Hrt : AP.routed (sd_a sd) rq (proxy_slug re_match sd q) k B.p_refresh).
+    { unfold rq, rq_refresh. apply bc_routed; auto. unfold leaves; cbn; tauto. }
+    destruct (refresh_facts lower (sd_a sd) rq (a_oracles sd st no_aux) an (now_ns st) _ k Hrt) as [_ Hun]. cbv zeta in Hun.
+    destruct (PC.unavailable _) eqn:Eu; [|reflexivity]. exfalso.
+    apply PCP.unavailable_iff in Eu. destruct Hun as [e [He Hcase]]; [lia|].
+    unfold an in He. rewrite Hkind in He.
+    destruct (eff_refresh_err (st_idp st) k (proxy_grant re_match sd st q) None sc (or_intror Hrev)) as [e' [He' Hrk]].
+    rewrite He' in He. inversion He; subst e'. rewrite (Hrk Hup) in Hcase. destruct Hcase; discriminate.
+  - (* validate *)
+    destruct (Hk B.p_validate) as [Hf Hc]; [unfold leaves; cbn; tauto|].
+    match goal with |- PC.unavailable (Z.of_N (A.r_status (A.serve _ _ ?rq0 _ ?an0 _))) = _ => set (rq := rq0); set (an := an0) end.
+    assert (Hrt : AP.routed (sd_a sd) rq (proxy_slug re_match sd q) k B.p_validate).
+    { unfold rq, rq_validate. apply bc_routed; auto. unfold leaves; cbn; tauto. }
+    destruct (validate_facts lower (sd_a sd) rq (a_oracles sd st no_aux) an (now_ns st) _ k Hrt) as [_ [H429 H503]]. cbv zeta in H429, H503.
+    destruct (PC.unavailable _) eqn:Eu; [|reflexivity]. exfalso. apply PCP.unavailable_iff in Eu. lia.
+  - (* profile *)
+    destruct (Hk B.p_profile) as [Hf Hc]; [unfold leaves; cbn; tauto|].
+    match goal with |- PC.unavailable (Z.of_N (A.r_status (A.serve _ _ ?rq0 _ ?an0 _))) = _ => set (rq := rq0); set (an := an0) end.
+    assert (Hrt : AP.routed (sd_a sd) rq (proxy_slug re_match sd q) k B.p_profile).
+    { unfold rq, rq_profile. apply bc_routed; auto. unfold leaves; cbn; tauto. }
+    pose proof (profile_facts lower (sd_a sd) rq (a_oracles sd st no_aux) an (now_ns st) _ k Hrt) as Hun. cbv zeta in Hun.
+    destruct (PC.unavailable _) eqn:Eu; [|reflexivity]. exfalso. apply PCP.unavailable_iff in Eu.
+    assert (Hg : A.an_groups an = B.GrpErr B.ERateLimit \/ A.an_groups an = B.GrpErr B.EUnavailable) by (apply Hun; lia).
+    unfold an, eff_answers in Hg. rewrite Hup in Hg. cbn [A.an_groups] in Hg.
+    match type of Hg with idp_groups ?i ?e ?a = _ \/ _ => destruct (idp_groups_not_unavailable i e a) as [N1 N2] end.
+    destruct Hg; contradiction.
+Qed.
+
+(* ... so a due check of a revoked lineage ends the session: no grace *)
+Theorem revoked_answer_ends_session st q bk sc bv e p g t :
+  Inv re_match lower sd st ->
+  P.oc_backend (proxy_outcome re_match re_replace lower sd st q bk LinkUp sc) = Some bv ->
+  In e (ReqHeaders.h_get ReqHeaders.k_xfe (P.bk_handler bv)) ->
+  presented_p sd st q = Some p -> pr_grant p = Some g -> revoked_at st g t -> i_down (st_idp st) = false ->
+  st_now st <= PC.s_refresh_dl (pr_s p) /\ st_now st <= PC.s_valid_dl (pr_s p).
+Proof.
+  intros HI Hb He Hp Hg Hrv Hup.
+  destruct (served_identity re_match re_replace lower sd st q bk LinkUp sc bv HI Hb) as (u & Hr & _ & _ & Hid).
+  destruct (Hid e He) as (Hsk & _ & s & Hck & Hok).
+  destruct (session_cookie_presented sd st q s Hck) as [p' [Hp' [Hps Hpin]]].
+  rewrite Hp in Hp'. inversion Hp'; subst p'. clear Hp'. rewrite Hps.
+  assert (Hcb : is_callback q = false).
+  { destruct (is_callback q) eqn:E; [|reflexivity]. apply is_callback_iff in E.
+    unfold proxy_outcome in Hb.
+    destruct (PP.backend_reached_only_if re_match re_replace lower _ _ _ _ _ _ Hb)
+      as (_ & _ & _ & _ & _ & _ & _ & _ & _ & _ & _ & [Hrt|Hrt] & _); rewrite E in Hrt; discriminate. }
+  assert (Hgr : proxy_grant re_match sd st q = Some g) by (unfold proxy_grant; rewrite Hcb, Hp; exact Hg).
+  assert (Hrev : is_revoked (st_idp st) (proxy_grant re_match sd st q) = true) by (rewrite Hgr; eapply revoked_at_is; exact Hrv).
+  destruct (no_confirmation re_match lower sd st q bk LinkUp sc Hwired (or_intror Hrev)) as [Hnv Hnr]. cbv zeta in Hnv, Hnr.
+  pose proof (revoked_up_not_unavailable st q bk sc Hup Hrev) as Hns.
+  set (a := P.an_auth (bc_answers LinkUp (bc_run re_match lower sd st q LinkUp sc) bk)) in *.
+  destruct Hok as (_ & _ & _ & Hrf & Hvl & _).
+  destruct (Z_lt_dec (PC.s_refresh_dl s) (st_now st)) as [Hrd|Hrd].
+  - exfalso. destruct (Hrf Hrd) as [_ [[tok [dur [Hc _]]]|[Ho _]]]; [exact (Hnr _ _ Hc)|].
+    destruct Ho as [Ho|[tok [dur [Hc _]]]]; [|exact (Hnr _ _ Hc)].
+    unfold PC.redeem_refresh in Ho. unfold saw_unavailable, unavail_ans in Hns.
+    destruct (PC.a_refresh a) as [c|]; [|discriminate].
+    destruct (c =? 201); [destruct (PC.a_refresh_body a) as [[? ?]|]; discriminate|].
+    destruct (PC.unavailable c); [discriminate|]. destruct (c =? 401); discriminate.
+  - split; [lia|]. destruct (Z_lt_dec (PC.s_valid_dl s) (st_now st)) as [Hvd|Hvd]; [|lia]. exfalso.
+    destruct (Hvl ltac:(lia) Hvd) as [[Hc _]|[Ho _]]; [exact (Hnv Hc)|].
+    destruct Ho as [[code [Ha Hu]]|[Hc _]]; [|exact (Hnv Hc)].
+    unfold saw_unavailable, unavail_ans in Hns. rewrite Ha, Hu in Hns. rewrite orb_true_r in Hns. discriminate.
+Qed.
+
+End NoGrace.
